@@ -14,7 +14,16 @@
 //!     The operations: STATIC_OPS + generated_ops (every skip position of every matching iterator)
 //!     + WIDE_OPS (the remaining arms of the anchored files) + LOOP_OPS (every loop over data of
 //!     the parsers, serializers, stores and source adapters driven with a large count of the thing
-//!     it iterates over); `x-sparql-*` (size of the QUERY) are exploration, recorded, not judged.
+//!     it iterates over) + store_ops (every store type, Vec-backed ones included, with very many
+//!     statements and with very many COPIES of one statement, every mutation and query);
+//!     each operation that reaches a CONFIGURABLE component (Turtle / TriG indentation and prefix
+//!     map, JSON-LD spaces and processing mode, RDF/XML indentation, N-Triples config, SPARQL entry
+//!     point) is run again under the configuration of the legal extremes (empty indentation, ...)
+//!     and under one configuration drawn from the seed (quick) / under every configuration (thorough);
+//!     `x-sparql-*` (size of the QUERY) and `x-nt-ascii` are exploration, recorded, not judged.
+//!  4. directed correspondence streams (ids from 500000): histories on Vec stores holding many
+//!     copies (C16/VecStore.v), blank node chains through the pretty writer under a configuration
+//!     (C16/PrettyChain.v).
 use sophia_api::dataset::{Dataset, MutableDataset};
 use sophia_api::graph::{Graph, MutableGraph};
 use sophia_api::prelude::*;
@@ -66,6 +75,92 @@ impl<D: Dataset> Dataset for ProbeDs<D> {
         probe(); self.0.quads_matching(sm, pm, om, gm)
     }
     fn graph_names(&self) -> impl Iterator<Item = Result<sophia_api::dataset::DTerm<'_, Self>, Self::Error>> + '_ { probe(); self.0.graph_names() }
+}
+
+// ---------------------------------------------------------------------------------------------
+// configurations: every operation reaches the configurable components (Turtle / TriG serializer,
+// JSON-LD serializer, RDF/XML serializer, N-Triples / N-Quads serializers, SPARQL wrapper) through
+// the helpers below, which read the CURRENT configuration: one value index per dimension, 0 = the
+// component's default, i.e. the operation exactly as it is written.  An operation name may carry a
+// configuration: "ttl-chain@i1p1" = ttl-chain with indentation #1 and prefix map #1.
+// The helpers also record which dimensions an operation consulted (that is how the harness knows
+// which configurations can influence an operation at all).
+// ---------------------------------------------------------------------------------------------
+use std::sync::atomic::{AtomicU64, Ordering::SeqCst};
+/// (letter, what, values; the FIRST value is the default; `extreme` = index of the legal extreme value)
+struct Dim { letter: char, what: &'static str, values: &'static [&'static str], extreme: u8 }
+const DIMS: &[Dim] = &[
+    Dim { letter: 'i', what: "TurtleConfig::with_indentation", values: &["default (two spaces)", "\"\" (empty)", "one space", "one tab", "nine characters (spaces and tabs)", "a line feed and a space"], extreme: 1 },
+    Dim { letter: 'p', what: "TurtleConfig prefix map", values: &["default / the operation's own", "empty", "seven prefixes covering the IRIs of the data"], extreme: 1 },
+    Dim { letter: 's', what: "JsonLdOptions::with_spaces", values: &["default (0)", "2", "1", "8"], extreme: 3 },
+    Dim { letter: 'm', what: "JsonLdOptions::with_processing_mode", values: &["default (json-ld-1.1)", "json-ld-1.0"], extreme: 1 },
+    Dim { letter: 'x', what: "RdfXmlConfig::with_indentation", values: &["default (0)", "4", "1"], extreme: 1 },
+    // (set_ascii(true) is not a usable configuration: NtSerializer / NqSerializer answer it with `todo!()`; recorded as exploration)
+    Dim { letter: 'a', what: "NtConfig", values: &["default", "set_ascii(false) called explicitly, serializer built by new_with_config / new_stringifier_with_config"], extreme: 1 },
+    // (no extreme value among the entry points: one of them is drawn from the seed)
+    Dim { letter: 'q', what: "SPARQL entry point", values: &["Query::parse, then query(&query)", "query(&str)", "prepare_query, then query(&query)", "prepare_query_with(base), then query(&query)"], extreme: 0 },
+];
+const D_IND: usize = 0; const D_PM: usize = 1; const D_SP: usize = 2; const D_MODE: usize = 3; const D_XI: usize = 4; const D_ASCII: usize = 5; const D_QE: usize = 6;
+/// current configuration, 4 bits per dimension
+static CFG: AtomicU64 = AtomicU64::new(0);
+/// dimensions consulted since the last reset (bit per dimension)
+static CFG_USED: AtomicU64 = AtomicU64::new(0);
+fn cfg_get(d: usize) -> u8 { CFG_USED.fetch_or(1 << d, SeqCst); ((CFG.load(SeqCst) >> (4 * d)) & 15) as u8 }
+fn cfg_value(packed: u64, d: usize) -> u8 { ((packed >> (4 * d)) & 15) as u8 }
+/// "i1p2" -> packed
+fn cfg_parse(s: &str) -> u64 {
+    let mut packed = 0u64; let b: Vec<char> = s.chars().collect(); let mut k = 0;
+    while k + 1 < b.len() { let d = DIMS.iter().position(|d| d.letter == b[k]).unwrap_or_else(|| panic!("unknown configuration dimension {}", b[k])); let v = b[k + 1].to_digit(16).unwrap() as u64; assert!((v as usize) < DIMS[d].values.len()); packed |= v << (4 * d); k += 2; }
+    packed
+}
+fn cfg_suffix(packed: u64) -> String { DIMS.iter().enumerate().filter(|(d, _)| cfg_value(packed, *d) != 0).map(|(d, dim)| format!("{}{:x}", dim.letter, cfg_value(packed, d))).collect() }
+fn cfg_describe(packed: u64) -> String { DIMS.iter().enumerate().filter(|(d, _)| cfg_value(packed, *d) != 0).map(|(d, dim)| format!("{} = {}", dim.what, dim.values[cfg_value(packed, d) as usize])).collect::<Vec<_>>().join(", ") }
+/// (operation, packed configuration) of a name like "ttl-chain@i1p1"
+fn split_op(op: &str) -> (&str, u64) { match op.split_once('@') { Some((b, c)) => (b, cfg_parse(c)), None => (op, 0) } }
+/// all the non-default configurations over the dimensions in `dims` (bit set), in a fixed order
+fn all_configs(dims: u64) -> Vec<u64> {
+    let mut v = vec![0u64];
+    for (d, dim) in DIMS.iter().enumerate() { if dims & (1 << d) == 0 { continue; } v = v.iter().flat_map(|c| (0..dim.values.len() as u64).map(move |x| c | (x << (4 * d)))).collect(); }
+    v.retain(|c| *c != 0); v.sort(); v
+}
+/// every used dimension at its legal extreme value
+fn extreme_config(dims: u64) -> u64 { DIMS.iter().enumerate().filter(|(d, _)| dims & (1 << d) != 0).map(|(d, dim)| (dim.extreme as u64) << (4 * d)).sum() }
+
+type PmPair = (sophia_api::prefix::Prefix<Box<str>>, sophia_iri::Iri<Box<str>>);
+fn pm_pair(p: &str, ns: &str) -> PmPair { (sophia_api::prefix::Prefix::new_unchecked(p.into()), sophia_iri::Iri::new_unchecked(ns.into())) }
+fn rich_prefix_map() -> Vec<PmPair> {
+    vec![pm_pair("x", "x:"), pm_pair("ex", "http://example.org/ns/"), pm_pair("e", "http://example.org/"), pm_pair("rdf", RDF), pm_pair("xsd", XSD), pm_pair("", "x:s"), pm_pair("i18n", "https://www.w3.org/ns/i18n#")]
+}
+/// the configured indentation applied to `c`
+fn with_cfg_indentation(c: sophia_turtle::serializer::turtle::TurtleConfig) -> sophia_turtle::serializer::turtle::TurtleConfig {
+    match cfg_get(D_IND) { 0 => c, 1 => c.with_indentation(""), 2 => c.with_indentation(" "), 3 => c.with_indentation("\t"), 4 => c.with_indentation("  \t   \t  "), _ => c.with_indentation("\n ") }
+}
+/// Turtle / TriG configuration of an operation that does not care about the prefix map
+fn turtle_cfg(pretty: bool) -> sophia_turtle::serializer::turtle::TurtleConfig {
+    let c = with_cfg_indentation(sophia_turtle::serializer::turtle::TurtleConfig::new().with_pretty(pretty));
+    match cfg_get(D_PM) { 0 => c, 1 => c.with_own_prefix_map(vec![]), _ => c.with_own_prefix_map(rich_prefix_map()) }
+}
+/// Turtle / TriG configuration of an operation that has a prefix map of its own (kept in the default configuration)
+fn turtle_cfg_own(pretty: bool, own: Vec<PmPair>) -> sophia_turtle::serializer::turtle::TurtleConfig {
+    let c = with_cfg_indentation(sophia_turtle::serializer::turtle::TurtleConfig::new().with_pretty(pretty));
+    match cfg_get(D_PM) { 0 => c.with_own_prefix_map(own), 1 => c.with_own_prefix_map(vec![]), _ => c.with_own_prefix_map(rich_prefix_map()) }
+}
+fn jsonld_opts() -> sophia_jsonld::JsonLdOptions<sophia_jsonld::loader_factory::DefaultLoaderFactory<sophia_jsonld::loader::NoLoader>> {
+    let o = sophia_jsonld::JsonLdOptions::new();
+    let o = match cfg_get(D_SP) { 0 => o, 1 => o.with_spaces(2), 2 => o.with_spaces(1), _ => o.with_spaces(8) };
+    if cfg_get(D_MODE) == 1 { o.with_processing_mode(sophia_jsonld::ProcessingMode::JsonLd1_0) } else { o }
+}
+fn xml_cfg() -> sophia_xml::serializer::RdfXmlConfig { let c = sophia_xml::serializer::RdfXmlConfig::new(); match cfg_get(D_XI) { 0 => c, 1 => c.with_indentation(4), _ => c.with_indentation(1) } }
+fn nt_cfg() -> sophia_turtle::serializer::nt::NtConfig { let mut c = sophia_turtle::serializer::nt::NtConfig::default(); if cfg_get(D_ASCII) == 1 { c.set_ascii(false); } c }
+/// one SPARQL query through the configured entry point
+fn sq<'a, D: Dataset + ?Sized>(w: &sophia_sparql::SparqlWrapper<'a, D>, text: &str) -> Result<sophia_api::sparql::SparqlResult<sophia_sparql::SparqlWrapper<'a, D>>, sophia_sparql::SparqlWrapperError<D::Error>> {
+    use sophia_sparql::SparqlQuery;
+    match cfg_get(D_QE) {
+        0 => { let q = SparqlQuery::parse(text)?; w.query(&q) }
+        1 => w.query(text),
+        2 => { let q = w.prepare_query(text)?; w.query(&q) }
+        _ => { let q = w.prepare_query_with(text, sophia_iri::Iri::new_unchecked("http://base.example/dir/"))?; w.query(&q) }
+    }
 }
 
 // ---------------------------------------------------------------------------------------------
@@ -126,7 +221,7 @@ fn generated_ops() -> Vec<(String, String)> {
 }
 fn ops() -> &'static [(&'static str, &'static str)] {
     static ALL: std::sync::OnceLock<Vec<(&'static str, &'static str)>> = std::sync::OnceLock::new();
-    ALL.get_or_init(|| { let mut v: Vec<(&'static str, &'static str)> = STATIC_OPS.to_vec(); for (a, b) in generated_ops() { v.push((Box::leak(a.into_boxed_str()), Box::leak(b.into_boxed_str()))); } v.extend_from_slice(WIDE_OPS); v.extend_from_slice(LOOP_OPS); v })
+    ALL.get_or_init(|| { let mut v: Vec<(&'static str, &'static str)> = STATIC_OPS.to_vec(); for (a, b) in generated_ops() { v.push((Box::leak(a.into_boxed_str()), Box::leak(b.into_boxed_str()))); } v.extend_from_slice(WIDE_OPS); v.extend_from_slice(LOOP_OPS); v.extend_from_slice(store_ops()); v })
 }
 /// matchers of the generated iterator operations
 enum SM { K(ST), AnyM, Last }
@@ -182,6 +277,8 @@ fn escapes(n: usize) -> String { (0..n).map(|i| ['"', '\\', '\n', '\r'][i % 4]).
 /// runs `op` at size `n`; the returned number is a functional summary that the caller checks
 /// (expected value given by `expected`)
 fn run_op(op: &str, n: usize) -> u64 {
+    let (op, packed) = split_op(op);
+    CFG.store(packed, SeqCst);
     let last = |t: SimpleTerm| -> bool { probe(); t.iri().map_or(false, |i| i.as_str() == "x:last") };
     match op {
         o if o.starts_with("it-") => run_generated(o, n),
@@ -223,37 +320,36 @@ fn run_op(op: &str, n: usize) -> u64 {
         "nt-escape" => {
             let t = [iri("x:s"), iri("x:p"), lit_dt(&escapes(n), &format!("{XSD}string"))];
             let mut sink = ProbeSink(0);
-            sophia_turtle::serializer::nt::NtSerializer::new(&mut sink).serialize_triples([t].into_iter().into_source()).unwrap();
+            sophia_turtle::serializer::nt::NtSerializer::new_with_config(&mut sink, nt_cfg()).serialize_triples([t].into_iter().into_source()).unwrap();
             sink.0
         }
         "nq-escape" => {
             let q = ([iri("x:s"), iri("x:p"), lit_dt(&escapes(n), &format!("{XSD}string"))], Some(iri("x:g")));
             let mut sink = ProbeSink(0);
-            sophia_turtle::serializer::nq::NqSerializer::new(&mut sink).serialize_quads([q].into_iter().into_source()).unwrap();
+            sophia_turtle::serializer::nq::NqSerializer::new_with_config(&mut sink, nt_cfg()).serialize_quads([q].into_iter().into_source()).unwrap();
             sink.0
         }
         "ttl-escape" => {
             let t = [iri("x:s"), iri("x:p"), lit_dt(&escapes(n), &format!("{XSD}string"))];
-            let cfg = sophia_turtle::serializer::turtle::TurtleConfig::new().with_pretty(true);
+            let cfg = turtle_cfg(true);
             let mut sink = ProbeSink(0);
             sophia_turtle::serializer::turtle::TurtleSerializer::new_with_config(&mut sink, cfg).serialize_triples([t].into_iter().into_source()).unwrap();
             sink.0
         }
         "sparql-graph" => {
-            use sophia_sparql::{SparqlQuery, SparqlWrapper};
+            use sophia_sparql::SparqlWrapper;
             let mut d = FastDataset::new();
             for i in 0..n { d.insert(s_i(i), iri("x:p"), iri("x:o"), Some(iri(&format!("x:g{i}")))).unwrap(); }
             let d = ProbeDs(d);
             let w = SparqlWrapper(&d);
-            let q = SparqlQuery::parse("SELECT ?g ?s { GRAPH ?g { ?s ?p ?o } }").unwrap();
-            let b = w.query(&q).unwrap().into_bindings();
+            let b = sq(&w, "SELECT ?g ?s { GRAPH ?g { ?s ?p ?o } }").unwrap().into_bindings();
             let mut c = 0;
             for row in b { let row = row.unwrap(); if row[0].is_some() && row[1].is_some() { c += 1; } }
             c
         }
         "jsonld-list" | "jsonld-stmts" => {
             let ts: Vec<[ST; 3]> = if op == "jsonld-list" { list_triples(n) } else { (0..n).map(|i| [s_i(i), iri("x:p"), lit(i)]).collect() };
-            let mut ser = sophia_jsonld::JsonLdSerializer::new_stringifier();
+            let mut ser = sophia_jsonld::JsonLdSerializer::new_stringifier_with_options(jsonld_opts());
             ser.serialize_quads(ts.into_iter().map(|t| (t, None::<ST>)).into_source()).unwrap();
             // functional summary: the number of "@value" entries
             String::from_utf8_lossy(ser.as_utf8()).matches("\"@value\"").count() as u64
@@ -265,7 +361,7 @@ fn run_op(op: &str, n: usize) -> u64 {
                 "ttl-type-chain" => (0..n).map(|i| [if i == 0 { iri("x:s") } else { bnode(&format!("b{i}")) }, iri("http://www.w3.org/1999/02/22-rdf-syntax-ns#type"), bnode(&format!("b{}", i + 1))]).collect(),
                 _ => (0..n).map(|i| [if i == 0 { iri("x:s") } else { bnode(&format!("b{i}")) }, iri("x:p"), bnode(&format!("b{}", i + 1))]).collect(),
             };
-            let cfg = sophia_turtle::serializer::turtle::TurtleConfig::new().with_pretty(true);
+            let cfg = turtle_cfg(true);
             let mut ser = sophia_turtle::serializer::turtle::TurtleSerializer::new_stringifier_with_config(cfg);
             let orig: Vec<[ST; 3]> = if n <= 1000 { ts.clone() } else { vec![] };
             ser.serialize_triples(ts.into_iter().into_source()).unwrap();
@@ -292,10 +388,10 @@ fn run_op(op: &str, n: usize) -> u64 {
         "nt-roundtrip" | "ttl-roundtrip" => {
             let ts = (0..n).map(|i| [s_i(i / 3), iri(&format!("x:p{}", i % 3)), lit(i)]);
             let out = if op == "nt-roundtrip" {
-                let mut ser = sophia_turtle::serializer::nt::NtSerializer::new_stringifier();
+                let mut ser = sophia_turtle::serializer::nt::NtSerializer::new_stringifier_with_config(nt_cfg());
                 ser.serialize_triples(ts.into_source()).unwrap(); ser.as_utf8().to_vec()
             } else {
-                let mut ser = sophia_turtle::serializer::turtle::TurtleSerializer::new_stringifier();
+                let mut ser = sophia_turtle::serializer::turtle::TurtleSerializer::new_stringifier_with_config(turtle_cfg(false));
                 ser.serialize_triples(ts.into_source()).unwrap(); ser.as_utf8().to_vec()
             };
             let mut c = 0u64;
@@ -312,18 +408,18 @@ fn run_op(op: &str, n: usize) -> u64 {
             (c - 1) / 2
         }
         "sparql-bgp" | "sparql-order" => {
-            use sophia_sparql::{SparqlQuery, SparqlWrapper};
+            use sophia_sparql::SparqlWrapper;
             let mut d = FastDataset::new();
             for i in 0..n { d.insert(s_i(i), iri("x:p"), lit(i), None::<ST>).unwrap(); }
             let d = ProbeDs(d);
             let w = SparqlWrapper(&d);
-            let q = SparqlQuery::parse(if op == "sparql-bgp" { "SELECT ?s { ?s <x:p> ?o FILTER(?o = <x:nope>) }" } else { "SELECT ?s { ?s <x:p> ?o } ORDER BY DESC(?s)" }).unwrap();
-            let b = w.query(&q).unwrap().into_bindings();
+            let b = sq(&w, if op == "sparql-bgp" { "SELECT ?s { ?s <x:p> ?o FILTER(?o = <x:nope>) }" } else { "SELECT ?s { ?s <x:p> ?o } ORDER BY DESC(?s)" }).unwrap().into_bindings();
             let c = b.into_iter().filter(|r| r.is_ok()).count() as u64;
             if op == "sparql-bgp" { n as u64 - c } else { c }
         }
         o if WIDE_OPS.iter().any(|(k, _)| *k == o) => run_wide(o, n),
         o if LOOP_OPS.iter().any(|(k, _)| *k == o) => run_loop(o, n),
+        o if o.starts_with("store-") => run_store(o, n),
         // exploration only (not in the table of operations): the size of the QUERY, on 3 triples
         "x-sparql-keys" | "x-sparql-patterns" | "x-sparql-unions" => {
             let mut d = FastDataset::new();
@@ -336,12 +432,19 @@ fn run_op(op: &str, n: usize) -> u64 {
             if std::env::var("C16_PARSE_ONLY").is_ok() { use sophia_sparql::SparqlQuery; let _q: SparqlQuery<FastDataset> = SparqlQuery::parse(&q).unwrap(); return n as u64; }
             match sparql_run(&d, &q) { Ok((c, 0)) if c == if op == "x-sparql-unions" { 3 * n as u64 } else { 3 } => n as u64, r => { eprintln!("{:?}", r.map_err(|e| e.chars().take(200).collect::<String>())); 0 } }
         }
+        // exploration only: NtConfig::set_ascii(true) ("Pure-ASCII N-Triples is not implemented yet": todo!())
+        "x-nt-ascii" => {
+            let mut c = sophia_turtle::serializer::nt::NtConfig::default(); c.set_ascii(true);
+            let mut ser = sophia_turtle::serializer::nt::NtSerializer::new_stringifier_with_config(c);
+            ser.serialize_triples((0..n).map(|i| [s_i(i), iri("x:p"), lit_lang("\u{e9}", "fr")]).into_source()).unwrap();
+            n as u64
+        }
         _ => panic!("unknown operation {op}"),
     }
 }
 /// the functional summary expected from run_op
 fn expected(op: &str, n: usize) -> Option<u64> {
-    match op {
+    match split_op(op).0 {
         o if o.starts_with("it-") || o.starts_with("spo-") || o.starts_with("bc-") || o.starts_with("gspo-") || o.starts_with("bcd-") || o.starts_with("cd-") => Some(1),
         o if o.contains("-escape") => None, // byte count, checked > 2n below
         "insert-remove" => Some((n + (n + 3) / 7) as u64),
@@ -428,8 +531,7 @@ type Q = ([ST; 3], Option<ST>);
 /// reader is expected to return when it is not literally the input (relative IRIs resolved).
 fn pretty_there_and_back(quads: Vec<Q>, expect: Option<Vec<Q>>, trig: bool, generalized: bool, n: usize) -> bool {
     use sophia_api::parser::QuadParser;
-    let pm = vec![(sophia_api::prefix::Prefix::new_unchecked("ex".into()), sophia_iri::Iri::new_unchecked("http://example.org/ns/".into()))];
-    let cfg = sophia_turtle::serializer::turtle::TurtleConfig::new().with_pretty(true).with_own_prefix_map(pm);
+    let cfg = turtle_cfg_own(true, vec![pm_pair("ex", "http://example.org/ns/")]);
     let len = quads.len();
     let orig: Vec<Q> = match expect { Some(e) => e, None => if n <= 300 { quads.clone() } else { vec![] } };
     let out = if trig {
@@ -471,10 +573,9 @@ impl<D: Dataset> Dataset for FailDs<D> {
 
 /// outcome of one query: Ok((solutions, error items)) / Ok for ASK ((1|0), 0) / Err(the error value, as text)
 fn sparql_run<D: Dataset>(d: &D, q: &str) -> Result<(u64, u64), String> {
-    use sophia_sparql::{SparqlQuery, SparqlWrapper};
+    use sophia_sparql::SparqlWrapper;
     let w = SparqlWrapper(d);
-    let q = SparqlQuery::parse(q).map_err(|e| format!("parse: {e:?}"))?;
-    match w.query(&q) {
+    match sq(&w, q) {
         Err(e) => Err(format!("{e:?}")),
         Ok(sophia_api::sparql::SparqlResult::Boolean(b)) => Ok((b as u64, 0)),
         Ok(r) => { let (mut ok, mut er) = (0, 0); for row in r.into_bindings() { match row { Ok(_) => ok += 1, Err(_) => er += 1 } } Ok((ok, er)) }
@@ -487,14 +588,15 @@ fn jsonld_text<LF: sophia_jsonld::loader_factory::LoaderFactory>(quads: Vec<Q>, 
 }
 fn top_len(txt: &str) -> usize { match parse_json(txt) { Some(J::Arr(a)) => a.len(), _ => usize::MAX } }
 fn nq(t: [ST; 3]) -> Q { (t, None) }
-fn ck(cond: bool, what: &str) -> bool { if !cond { eprintln!("functional check failed: {what}"); } cond }
+static QUIET: std::sync::atomic::AtomicBool = std::sync::atomic::AtomicBool::new(false);
+fn ck(cond: bool, what: &str) -> bool { if !cond && !QUIET.load(SeqCst) { eprintln!("functional check failed: {what}"); } cond }
 
 fn run_wide(op: &str, n: usize) -> u64 {
     use sophia_turtle::serializer::{nq::NqSerializer, nt::{NtConfig, NtSerializer}};
     let yes = |b: bool| if b { n as u64 } else { 0 };
     match op {
         "nt-kinds" => {
-            let mut cfg = NtConfig::default(); cfg.set_ascii(false);
+            let mut cfg = NtConfig::default(); cfg.set_ascii(false); let _ = cfg_get(D_ASCII);
             let mut sink = ProbeVec(vec![]);
             { let mut ser = NtSerializer::new_with_config(&mut sink, cfg);
               let _ = ser.config();
@@ -503,13 +605,13 @@ fn run_wide(op: &str, n: usize) -> u64 {
             let (mut c, mut same) = (0usize, true);
             sophia_turtle::parser::nt::parse_bufread(&out[..]).for_each_triple(|t| { let e = kinds_triple(c, false); same &= Term::eq(&e[0], t.s()) && Term::eq(&e[1], t.p()) && Term::eq(&e[2], t.o()); c += 1; }).unwrap();
             // the stringifier writes the same bytes
-            let same_str = n > 20_000 || { let mut s = NtSerializer::new_stringifier_with_config(NtConfig::default()); s.serialize_triples((0..n).map(|i| kinds_triple(i, false)).into_source()).unwrap(); s.as_utf8() == &out[..] };
+            let same_str = n > 20_000 || { let mut s = NtSerializer::new_stringifier_with_config(nt_cfg()); s.serialize_triples((0..n).map(|i| kinds_triple(i, false)).into_source()).unwrap(); s.as_utf8() == &out[..] };
             yes(ck(c == n, "number of triples read back") && ck(same, "terms read back") && ck(same_str, "stringifier"))
         }
         "nq-kinds" => {
             let quad = |i: usize| -> Q { (kinds_triple(i, true), match i % 5 { 0 => None, 1 | 2 => Some(iri(&format!("x:g{}", i % 50))), 3 => Some(bnode(&format!("g{}", i % 50))), _ => Some(var("g")) }) };
             let mut sink = ProbeVec(vec![]);
-            NqSerializer::new(&mut sink).serialize_quads((0..n).map(quad).into_source()).unwrap();
+            NqSerializer::new_with_config(&mut sink, nt_cfg()).serialize_quads((0..n).map(quad).into_source()).unwrap();
             let out = sink.0;
             let (mut c, mut same) = (0usize, true);
             sophia_turtle::parser::gnq::parse_bufread(&out[..]).for_each_quad(|q| { let e = quad(c); same &= Term::eq(&e.0[0], q.s()) && Term::eq(&e.0[1], q.p()) && Term::eq(&e.0[2], q.o()) && sophia_api::term::graph_name_eq(e.1.as_ref(), q.g()); c += 1; }).unwrap();
@@ -518,7 +620,7 @@ fn run_wide(op: &str, n: usize) -> u64 {
         "nt-escape-lang" | "nt-escape-dt" => {
             let l = if op == "nt-escape-lang" { lit_lang(&escapes(n), "en") } else { lit_dt(&escapes(n), "x:dt") };
             let mut sink = ProbeSink(0);
-            NtSerializer::new(&mut sink).serialize_triples([[iri("x:s"), iri("x:p"), l]].into_iter().into_source()).unwrap();
+            NtSerializer::new_with_config(&mut sink, nt_cfg()).serialize_triples([[iri("x:s"), iri("x:p"), l]].into_iter().into_source()).unwrap();
             sink.0
         }
         "nt-escape-quoted" => {
@@ -652,14 +754,13 @@ fn run_wide(op: &str, n: usize) -> u64 {
             yes(ck(r == Ok((n as u64, 0)), &format!("{r:?}")))
         }
         "sparql-extend" => {
-            use sophia_sparql::{SparqlQuery, SparqlWrapper};
+            use sophia_sparql::SparqlWrapper;
             let mut d = FastDataset::new();
             for i in 0..n { d.insert(s_i(i), iri("x:p"), lit(i), None::<ST>).unwrap(); }
             let d = ProbeDs(d);
             let w = SparqlWrapper(&d);
-            let q = SparqlQuery::parse("SELECT ?s ?x ?y { ?s <x:p> ?o BIND(STR(?o) AS ?x) BIND(?nope AS ?y) }").unwrap();
             let mut c = 0usize;
-            for row in w.query(&q).unwrap().into_bindings() { let row = row.unwrap(); if row[0].is_some() && row[1].is_some() && row[2].is_none() { c += 1; } }
+            for row in sq(&w, "SELECT ?s ?x ?y { ?s <x:p> ?o BIND(STR(?o) AS ?x) BIND(?nope AS ?y) }").unwrap().into_bindings() { let row = row.unwrap(); if row[0].is_some() && row[1].is_some() && row[2].is_none() { c += 1; } }
             // a variable bound twice is refused: by the parser, or with an error value
             let r = sparql_run(&d, "SELECT ?s { ?s <x:p> ?o BIND(1 AS ?o) }");
             yes(ck(c == n, &format!("{c} extended solutions")) && ck(r.is_err(), &format!("BIND on a bound variable: {r:?}")))
@@ -731,13 +832,12 @@ fn run_wide(op: &str, n: usize) -> u64 {
                 && ck(matches!(&c, Err(e) if e.contains("Dataset error")), &format!("failing graph_names: {c:?}")) && ck(e == Ok((0, 2)), &format!("errors through union / extend / distinct / slice: {e:?}")))
         }
         "sparql-order-multi" => {
-            use sophia_sparql::{SparqlQuery, SparqlWrapper};
+            use sophia_sparql::SparqlWrapper;
             let mut d = FastDataset::new();
             for i in 0..n { d.insert(s_i(i), iri(if i % 2 == 0 { "x:p" } else { "x:q" }), lit(i % 10), None::<ST>).unwrap(); }
             let d = ProbeDs(d);
             let w = SparqlWrapper(&d);
-            let q = SparqlQuery::parse("SELECT ?s ?o { { ?s <x:p> ?o } UNION { ?s <x:q> ?o2 } } ORDER BY ?nope ?o DESC(?s)").unwrap();
-            let rows: Vec<_> = w.query(&q).unwrap().into_bindings().into_iter().map(|r| r.unwrap()).collect();
+            let rows: Vec<_> = sq(&w, "SELECT ?s ?o { { ?s <x:p> ?o } UNION { ?s <x:q> ?o2 } } ORDER BY ?nope ?o DESC(?s)").unwrap().into_bindings().into_iter().map(|r| r.unwrap()).collect();
             // the solutions without ?o come first; then ?o ascending
             let unbound_first = rows.iter().take(n / 2).all(|r| r[1].is_none()) && rows.iter().skip(n / 2).all(|r| r[1].is_some());
             let key = |r: &Vec<Option<sophia_sparql::ResultTerm>>| r[1].as_ref().map(|t| t.lexical_form().unwrap().to_string());
@@ -755,15 +855,15 @@ fn run_wide(op: &str, n: usize) -> u64 {
         }
         "jsonld-graphs" | "jsonld-graph-nodes" => {
             let qs: Vec<Q> = (0..n).map(|i| ([s_i(i), iri("x:p"), lit(i)], Some(if op == "jsonld-graphs" { if i % 2 == 0 { iri(&format!("x:g{i}")) } else { bnode(&format!("g{i}")) } } else { iri(&format!("x:g{}", i / 100)) }))).collect();
-            let txt = jsonld_text(qs, sophia_jsonld::JsonLdOptions::new());
+            let txt = jsonld_text(qs, jsonld_opts());
             let graphs = if op == "jsonld-graphs" { n } else { (n + 99) / 100 };
             yes(ck(top_len(&txt) == graphs, "number of top-level nodes") && ck(txt.matches("\"@graph\"").count() == graphs, "number of @graph entries") && ck(txt.matches("\"@value\"").count() == n, "number of values"))
         }
         "jsonld-types" => {
             let mut qs: Vec<Q> = vec![];
             for i in 0..n { qs.push(nq([s_i(i), iri(RDF_TYPE), iri(&format!("x:C{}", i % 5))])); qs.push(nq([iri(&format!("x:many{}", i / 100)), iri(RDF_TYPE), iri(&format!("x:T{i}"))])); qs.push(nq([s_i(i), iri(RDF_TYPE), bnode(&format!("t{}", i % 3))])); }
-            let a = jsonld_text(qs.clone(), sophia_jsonld::JsonLdOptions::new());
-            let b = jsonld_text(qs, sophia_jsonld::JsonLdOptions::new().with_use_rdf_type(true));
+            let a = jsonld_text(qs.clone(), jsonld_opts());
+            let b = jsonld_text(qs, jsonld_opts().with_use_rdf_type(true));
             let many = (n + 99) / 100;
             yes(ck(top_len(&a) == n + many && a.matches("\"@type\"").count() == n + many && a.matches("\"x:T").count() == n, "@type entries") && ck(top_len(&b) == n + many && b.matches("\"@type\"").count() == 0 && b.matches(&format!("\"{RDF_TYPE}\"")).count() == n + many, "rdf:type entries with use_rdf_type"))
         }
@@ -779,7 +879,7 @@ fn run_wide(op: &str, n: usize) -> u64 {
                 if i % 10 == 2 { qs.push(nq([lit(i), iri("x:p"), s_i(i)])); qs.push(nq([s_i(i), bnode("pred"), lit(i)])); qs.push(nq([s_i(i), iri("x:p"), var("v")])); qs.push(nq([s_i(i), iri("x:p"), triple(s_i(i), iri("x:p"), lit(i))])); } // not expressible in JSON-LD: skipped
                 if i % 10 == 1 { qs.push(nq([s_i(i), iri("x:p"), lit_dt("not a number", &xsd("integer"))])); qs.push(nq([s_i(i), iri("x:p"), lit_dt("maybe", &xsd("boolean"))])); qs.push(nq([s_i(i), iri("x:p"), lit_dt("x", "https://www.w3.org/ns/i18n#EN_up")])); }
             }
-            let opt = sophia_jsonld::JsonLdOptions::new().with_use_native_types(true).with_rdf_direction(sophia_jsonld::RdfDirection::I18nDatatype);
+            let opt = jsonld_opts().with_use_native_types(true).with_rdf_direction(sophia_jsonld::RdfDirection::I18nDatatype);
             let txt = jsonld_text(qs, opt);
             let tenth = |k: usize| (n + 9 - k) / 10;
             yes(ck(top_len(&txt) == n, "number of nodes") && ck(txt.matches("\"@language\"").count() == tenth(0) + tenth(4), "@language entries") && ck(txt.matches("\"@direction\"").count() == tenth(4) + tenth(5), "@direction entries")
@@ -795,7 +895,7 @@ fn run_wide(op: &str, n: usize) -> u64 {
                 if i % 7 == 3 { qs.push(nq([s_i(i + n), iri("x:p"), c])); } // referenced twice: stays a node
             }
             let twice = (0..n).filter(|i| i % 7 == 3).count();
-            let txt = jsonld_text(qs, sophia_jsonld::JsonLdOptions::new().with_rdf_direction(sophia_jsonld::RdfDirection::CompoundLiteral));
+            let txt = jsonld_text(qs, jsonld_opts().with_rdf_direction(sophia_jsonld::RdfDirection::CompoundLiteral));
             yes(ck(top_len(&txt) == n + 2 * twice, &format!("number of nodes {} (expected {})", top_len(&txt), n + 2 * twice)) && ck(txt.matches("\"@direction\"").count() == n - twice, "@direction entries"))
         }
         "jsonld-list-cycle" => {
@@ -803,7 +903,9 @@ fn run_wide(op: &str, n: usize) -> u64 {
             for i in 0..n { let c = bnode(&format!("l{i}"));
                 qs.push(nq([c.clone(), iri(RDF_FIRST), if i + 1 == n { bnode("l0") } else { lit(i) }]));
                 qs.push(nq([c, iri(RDF_REST), if i + 1 == n { iri(RDF_NIL) } else { bnode(&format!("l{}", i + 1)) }])); }
-            let txt = jsonld_text(qs, sophia_jsonld::JsonLdOptions::new());
+            let txt = jsonld_text(qs, jsonld_opts());
+            // (json-ld-1.0: the cells after the first one are folded into an @list under the first cell's rdf:rest; nothing is lost either)
+            if cfg_get(D_MODE) == 1 { return yes(ck(top_len(&txt) == 1 && txt.matches("\"@value\"").count() == n - 1, &format!("{} nodes rendered, {} values", top_len(&txt), txt.matches("\"@value\"").count()))); }
             yes(ck(top_len(&txt) == n.max(1), &format!("{} nodes rendered", top_len(&txt))))
         }
         "jsonld-shared" => {
@@ -818,7 +920,7 @@ fn run_wide(op: &str, n: usize) -> u64 {
                 qs.push(([s_i(i), iri("x:l"), m.clone()], g1.clone())); qs.push(([m.clone(), iri(RDF_FIRST), lit(i)], g1.clone())); qs.push(([m.clone(), iri(RDF_REST), iri(RDF_NIL)], g1));
                 qs.push(([m, iri("x:also"), lit(i)], g2));
             }
-            let txt = jsonld_text(qs, sophia_jsonld::JsonLdOptions::new());
+            let txt = jsonld_text(qs, jsonld_opts());
             yes(ck(parse_json(&txt).is_some(), "readable JSON") && ck(txt.matches("\"x:also\"").count() == (n + 3) / 4, "x:also entries") && ck(txt.matches(&format!("\"{RDF_FIRST}\"")).count() == (n + 3) / 4 + (n + 2) / 4 + (n + 1) / 4, "cells kept as nodes"))
         }
         "jsonld-list10" => {
@@ -829,13 +931,13 @@ fn run_wide(op: &str, n: usize) -> u64 {
             qs.push(nq([bnode(&format!("l{k}")), iri(RDF_FIRST), bnode("i0")]));
             qs.push(nq([bnode("i0"), iri(RDF_FIRST), lit(1)])); qs.push(nq([bnode("i0"), iri(RDF_REST), bnode("i1")]));
             qs.push(nq([bnode("i1"), iri(RDF_FIRST), lit(2)])); qs.push(nq([bnode("i1"), iri(RDF_REST), iri(RDF_NIL)]));
-            let txt = jsonld_text(qs.clone(), sophia_jsonld::JsonLdOptions::new().with_processing_mode(sophia_jsonld::ProcessingMode::JsonLd1_0));
-            let txt11 = jsonld_text(qs, sophia_jsonld::JsonLdOptions::new());
-            yes(ck(parse_json(&txt).is_some() && txt.matches("\"@value\"").count() == n + 1, "values in 1.0 mode") && ck(top_len(&txt11) == 1 && txt11.matches("\"@list\"").count() == 2, "lists in 1.1 mode"))
+            let txt = jsonld_text(qs.clone(), jsonld_opts().with_processing_mode(sophia_jsonld::ProcessingMode::JsonLd1_0));
+            let txt11 = jsonld_text(qs, jsonld_opts());
+            yes(ck(parse_json(&txt).is_some() && txt.matches("\"@value\"").count() == n + 1, "values in 1.0 mode") && ck(cfg_get(D_MODE) == 1 || (top_len(&txt11) == 1 && txt11.matches("\"@list\"").count() == 2), "lists in 1.1 mode"))
         }
         "jsonld-json-literal" => {
             let arr = format!("[{}]", (0..n).map(|i| i.to_string()).collect::<Vec<_>>().join(","));
-            let txt = jsonld_text(vec![nq([iri("x:s"), iri("x:p"), lit_dt(&arr, &format!("{RDF}JSON"))])], sophia_jsonld::JsonLdOptions::new());
+            let txt = jsonld_text(vec![nq([iri("x:s"), iri("x:p"), lit_dt(&arr, &format!("{RDF}JSON"))])], jsonld_opts());
             let items = match parse_json(&txt) { Some(J::Arr(a)) => match a.first().and_then(|x| x.get("x:p")) { Some(J::Arr(v)) => match v.first().and_then(|x| x.get("@value")) { Some(J::Arr(items)) => items.len(), _ => usize::MAX }, _ => usize::MAX }, _ => usize::MAX };
             yes(ck(items == n, &format!("{items} array items")) && ck(txt.contains("\"@json\""), "@json"))
         }
@@ -1134,7 +1236,7 @@ fn run_loop(op: &str, n: usize) -> u64 {
             for i in 0..n { ts.push([iri("x:s"), iri(&format!("x:p{i}")), lit(i)]); }
             for i in 0..n { ts.push([iri("x:s"), iri("x:many"), if i % 2 == 0 { lit(i) } else { s_i(i) }]); }
             for i in 0..n { ts.push([iri("x:s"), iri(RDF_TYPE), iri(&format!("x:C{i}"))]); }
-            let cfg = sophia_turtle::serializer::turtle::TurtleConfig::new().with_pretty(pretty);
+            let cfg = turtle_cfg(pretty);
             let mut sink = ProbeVec(vec![]);
             sophia_turtle::serializer::turtle::TurtleSerializer::new_with_config(&mut sink, cfg.clone()).serialize_triples(ts.iter().cloned().into_source()).unwrap();
             let a = parse_count("ttl", std::str::from_utf8(&sink.0).unwrap());
@@ -1149,7 +1251,7 @@ fn run_loop(op: &str, n: usize) -> u64 {
             let mut qs: Vec<Q> = vec![];
             for i in 0..n { qs.push(([s_i(i), iri("x:p"), lit(i)], Some(iri(&format!("x:g{i}"))))); }
             for i in 0..n { qs.push(([s_i(i), iri("x:q"), lit(i)], if pretty { None } else { Some(iri("x:big")) })); }
-            let cfg = sophia_turtle::serializer::turtle::TurtleConfig::new().with_pretty(pretty);
+            let cfg = turtle_cfg(pretty);
             let mut sink = ProbeVec(vec![]);
             sophia_turtle::serializer::trig::TrigSerializer::new_with_config(&mut sink, cfg).serialize_quads(qs.into_iter().into_source()).unwrap();
             yes(expect_count("TriG read back", parse_count("trig", std::str::from_utf8(&sink.0).unwrap()), 2 * n))
@@ -1159,7 +1261,7 @@ fn run_loop(op: &str, n: usize) -> u64 {
             let ts: Vec<[ST; 3]> = vec![[iri("http://example.org/ns0/s"), iri(&format!("http://example.org/ns{}/p", n - 1)), iri("http://example.org/other/o")], [iri(&format!("http://example.org/ns{}/s", n / 2)), iri("x:p"), lit_dt("1", &format!("http://example.org/ns{}/dt", n - 1))]];
             let mut ok = true;
             for pretty in [false, true] {
-                let cfg = sophia_turtle::serializer::turtle::TurtleConfig::new().with_pretty(pretty).with_own_prefix_map(pm.clone());
+                let cfg = with_cfg_indentation(sophia_turtle::serializer::turtle::TurtleConfig::new().with_pretty(pretty).with_own_prefix_map(pm.clone()));
                 let mut sink = ProbeVec(vec![]);
                 sophia_turtle::serializer::turtle::TurtleSerializer::new_with_config(&mut sink, cfg.clone()).serialize_triples(ts.iter().cloned().into_source()).unwrap();
                 let txt = String::from_utf8(sink.0).unwrap();
@@ -1177,24 +1279,23 @@ fn run_loop(op: &str, n: usize) -> u64 {
             for i in 0..n { ts.push([if i % 3 == 0 { bnode(&format!("b{i}")) } else { iri(&format!("http://example.org/s{i}")) }, iri("http://example.org/ns/p"), match i % 4 { 0 => lit(i), 1 => lit_lang("<&>\"'", "en"), 2 => iri(&format!("http://example.org/o{i}")), _ => bnode(&format!("o{i}")) }]); }
             for i in 0..n { ts.push([iri("http://example.org/s"), iri(&format!("http://example.org/ns/p{}", i % 50)), lit(i)]); }
             let mut sink = ProbeVec(vec![]);
-            sophia_xml::serializer::RdfXmlSerializer::new(&mut sink).serialize_triples(ts.into_iter().into_source()).unwrap();
+            sophia_xml::serializer::RdfXmlSerializer::new_with_config(&mut sink, xml_cfg()).serialize_triples(ts.into_iter().into_source()).unwrap();
             yes(expect_count("RDF/XML read back", parse_count("xml", std::str::from_utf8(&sink.0).unwrap()), 2 * n))
         }
         "jsonld-values" => {
             let mut qs: Vec<Q> = vec![];
             for i in 0..n { qs.push(nq([iri("x:s"), iri("x:p"), if i % 2 == 0 { lit(i) } else { s_i(i) }])); qs.push(nq([iri("x:s"), iri(RDF_TYPE), iri(&format!("x:C{i}"))])); }
-            let txt = jsonld_text(qs, sophia_jsonld::JsonLdOptions::new());
+            let txt = jsonld_text(qs, jsonld_opts());
             yes(ck(top_len(&txt) == 1, "one node") && ck(txt.matches("\"@value\"").count() == (n + 1) / 2, "values") && ck(txt.matches("\"x:C").count() == n, "types"))
         }
         "sparql-order-keys" => {
-            use sophia_sparql::{SparqlQuery, SparqlWrapper};
+            use sophia_sparql::SparqlWrapper;
             let mut d = FastDataset::new();
             for i in 0..n { d.insert(s_i(i), iri("x:p"), lit(i % 2), None::<ST>).unwrap(); }
             let d = ProbeDs(d);
             let keys: String = (0..9).map(|k| match k % 4 { 0 => "?o ".to_string(), 1 => "DESC(?o) ".to_string(), 2 => format!("(?nope{k}) "), _ => "ASC(STR(?o)) ".to_string() }).collect();
-            let q = SparqlQuery::parse(&format!("SELECT ?s ?o {{ ?s <x:p> ?o }} ORDER BY {keys} DESC(?s)")).unwrap();
             let w = SparqlWrapper(&d);
-            let rows: Vec<_> = w.query(&q).unwrap().into_bindings().into_iter().map(|r| r.unwrap()).collect();
+            let rows: Vec<_> = sq(&w, &format!("SELECT ?s ?o {{ ?s <x:p> ?o }} ORDER BY {keys} DESC(?s)")).unwrap().into_bindings().into_iter().map(|r| r.unwrap()).collect();
             let key = |r: &Vec<Option<sophia_sparql::ResultTerm>>| (r[1].as_ref().unwrap().lexical_form().unwrap().to_string(), std::cmp::Reverse(r[0].as_ref().unwrap().iri().unwrap().to_string()));
             yes(ck(rows.len() == n, "number of solutions") && ck(rows.windows(2).all(|w| key(&w[0]) <= key(&w[1])), "order: ?o ascending, then ?s descending"))
         }
@@ -1261,6 +1362,224 @@ fn run_loop(op: &str, n: usize) -> u64 {
         }
         _ => unreachable!(),
     }
+}
+
+// ---------------------------------------------------------------------------------------------
+// every store type, every mutation and query of it, with VERY MANY statements and with VERY MANY
+// COPIES of one statement: the Vec-backed stores of api/src/{dataset,graph}/_foreign_impl.rs are
+// not sets (insert pushes), so a statement may be held n times and every mutation that looks for
+// it meets n copies; the set stores (HashSet, BTreeSet, sophia_inmem) get the same histories.
+// "store-<kind>-<shape>": shape `many` = n distinct statements, `copies` = n copies of one
+// statement, both between two other statements that must survive.
+// The functional checks are those of the API contract (a removed statement is less often there
+// than before, the other statements are untouched, retain / remove_matching leave nothing that
+// they should have removed); how many copies `remove` takes away is the model's business (Coq).
+// ---------------------------------------------------------------------------------------------
+const STORE_KINDS: &[(&str, &str)] = &[
+    ("vgspo", "Vec<Gspo<SimpleTerm>> dataset"), ("vspog", "Vec<Spog<SimpleTerm>> dataset"), ("hgspo", "HashSet<Gspo<SimpleTerm>> dataset"), ("hspog", "HashSet<Spog<SimpleTerm>> dataset"),
+    ("bgspo", "BTreeSet<Gspo<SimpleTerm>> dataset"), ("bspog", "BTreeSet<Spog<SimpleTerm>> dataset"), ("mutref", "&mut Vec<Gspo<SimpleTerm>> dataset"), ("gasd", "GraphAsDataset<Vec<[SimpleTerm; 3]>> dataset (into_dataset)"),
+    ("fastd", "FastDataset"), ("lightd", "LightDataset"),
+    ("vtri", "Vec<[SimpleTerm; 3]> graph"), ("htri", "HashSet<[SimpleTerm; 3]> graph"), ("btri", "BTreeSet<[SimpleTerm; 3]> graph"), ("gmutref", "&mut Vec<[SimpleTerm; 3]> graph"),
+    ("dsgv", "DatasetGraph<&mut Vec<Gspo<SimpleTerm>>, _> graph (graph_mut)"), ("dsgs", "DatasetGraph<&mut Vec<Spog<SimpleTerm>>, _> graph (graph_mut)"), ("fastg", "FastGraph"), ("lightg", "LightGraph"),
+    ("views", "read-only views of Vec stores: slices of Gspo / Spog / triples, &Dataset, graph(name), union_graph, partial_union_graph, as_dataset"),
+];
+fn store_ops() -> &'static [(&'static str, &'static str)] {
+    static ALL: std::sync::OnceLock<Vec<(&'static str, &'static str)>> = std::sync::OnceLock::new();
+    ALL.get_or_init(|| { let mut v = vec![]; for (k, what) in STORE_KINDS { for (shape, sw) in [("many", "n distinct statements"), ("copies", "n copies of one statement")] {
+        let name: &'static str = Box::leak(format!("store-{k}-{shape}").into_boxed_str());
+        let desc: &'static str = Box::leak(format!("{what} holding {sw}: insert, insert_all, contains (present / absent), *_matching with caller-supplied matchers skipping n statements, enumerations, remove (absent / present), remove_quad / remove_triple, remove_all, remove_matching, retain_matching").into_boxed_str());
+        v.push((name, desc)); } } v })
+}
+/// caller-supplied matcher: probes, accepts the IRIs listed (or everything but them)
+struct IriIn { names: Vec<&'static str>, negate: bool }
+impl sophia_api::term::matcher::TermMatcher for IriIn {
+    type Term = ST;
+    fn matches<T2: Term + ?Sized>(&self, t: &T2) -> bool { probe(); let hit = t.iri().map_or(false, |i| self.names.iter().any(|n| *n == i.as_str())); hit != self.negate }
+}
+fn iri_in(names: &[&'static str]) -> IriIn { IriIn { names: names.to_vec(), negate: false } }
+fn iri_not_in(names: &[&'static str]) -> IriIn { IriIn { names: names.to_vec(), negate: true } }
+/// the statements of a store history
+#[derive(Clone, Copy)]
+struct Shape { n: usize, copies: bool, named: bool }
+impl Shape {
+    fn g(&self) -> Option<ST> { if self.named { Some(iri("x:g")) } else { None } }
+    fn step(&self) -> usize { self.n / 8 + 2 }
+    fn rare(&self, i: usize) -> bool { !self.copies && i % self.step() == 1 && i + 8 < self.n }
+    fn stmt(&self, i: usize) -> [ST; 3] { if self.copies { [iri("x:s"), iri("x:p"), iri("x:o")] } else { [s_i(i), iri(if self.rare(i) { "x:rare" } else { "x:p" }), lit(i)] } }
+    /// k-th statement to remove (distinct statements in the `many` shape)
+    fn tgt(&self, k: usize) -> [ST; 3] { self.stmt(self.n - 1 - k) }
+    fn rares(&self) -> usize { (0..self.n).filter(|i| self.rare(*i)).count() }
+    fn other_a(&self) -> [ST; 3] { [iri("x:other"), iri("x:p"), iri("x:o")] }
+    fn other_b(&self) -> [ST; 3] { [iri("x:o"), iri("x:q"), iri("x:other")] }
+    fn absent(&self) -> [ST; 3] { [iri("x:s"), iri("x:p"), iri("x:absent")] }
+    fn quad(&self, t: [ST; 3]) -> Q { (t, self.g()) }
+}
+/// the queries of a history, on any Dataset (sized or not)
+fn ds_reads<D: Dataset + ?Sized>(d: &D, sh: Shape, set: bool) -> bool {
+    let (n, g) = (sh.n, sh.g());
+    let total = if set && sh.copies { 3 } else { n + 2 };
+    let t = sh.tgt(0); let a = sh.absent();
+    let count = d.quads().count();
+    let has = d.contains(&t[0], &t[1], &t[2], g.as_ref()).ok().unwrap();
+    let has_not = d.contains(&a[0], &a[1], &a[2], g.as_ref()).ok().unwrap();
+    // n statements rejected by a caller-supplied matcher at each position
+    let by_s = d.quads_matching(iri_in(&["x:other"]), Any, Any, Any).count();
+    let by_p = d.quads_matching(Any, iri_in(&["x:q"]), Any, Any).count();
+    let by_o = d.quads_matching(Any, Any, iri_in(&["x:other"]), Any).count();
+    let by_g = d.quads_matching(Any, Any, Any, SG::Last).count();
+    let exact = d.quads_matching([&t[0]], [&t[1]], [&t[2]], [g.as_ref()]).count();
+    let (subjects, names) = (d.subjects().count(), d.graph_names().count());
+    let iris = d.iris().filter(|t| t.as_ref().ok().and_then(|t| t.iri()).map_or(false, |i| i.as_str() == "x:q")).count();
+    ck(count == total, &format!("{count} quads, expected {total}")) && ck(has && !has_not, "contains") && ck(by_s == 1 && by_p == 1 && by_o == 1 && by_g == 0, &format!("quads_matching with closures: {by_s} {by_p} {by_o} {by_g}"))
+        && ck(exact == if sh.copies && !set { n } else { 1 }, &format!("{exact} quads equal to the target")) && ck(subjects == total && names == if sh.named { total } else { 0 } && iris == 1, &format!("enumerations: {subjects} subjects, {names} graph names"))
+}
+fn ds_fill<D: MutableDataset>(d: &mut D, sh: Shape) {
+    let q = sh.quad(sh.other_a()); d.insert(&q.0[0], &q.0[1], &q.0[2], q.1.as_ref()).ok().unwrap();
+    for i in 0..sh.n / 2 { let q = sh.quad(sh.stmt(i)); d.insert_quad(q).ok().unwrap(); }
+    d.insert_all((sh.n / 2..sh.n).map(|i| sh.quad(sh.stmt(i))).into_source()).ok().unwrap();
+    let q = sh.quad(sh.other_b()); d.insert(&q.0[0], &q.0[1], &q.0[2], q.1.as_ref()).ok().unwrap();
+}
+/// puts the n copies back (`copies` shape only: the next mutation must meet n copies again)
+fn ds_refill<D: MutableDataset + Dataset>(d: &mut D, sh: Shape) { if sh.copies { let t = sh.stmt(0); let have = d.quads_matching([&t[0]], [&t[1]], [&t[2]], [sh.g().as_ref()]).count(); d.insert_all((have..sh.n).map(|i| sh.quad(sh.stmt(i))).into_source()).ok().unwrap(); } }
+fn ds_history<D: MutableDataset + Dataset>(mut d: D, sh: Shape, set: bool) -> bool where D::MutationError: From<D::Error> { ds_history_a(&mut d, sh, set) && ds_history_b(&mut d, sh, set) }
+/// fill, query, remove / remove_quad / remove_all
+fn ds_history_a<D: MutableDataset + Dataset>(d: &mut D, sh: Shape, set: bool) -> bool {
+    let g = sh.g();
+    ds_fill(d, sh);
+    if !ds_reads(&*d, sh, set) { return false; }
+    let intact = |d: &D| { let (a, b) = (sh.other_a(), sh.other_b()); d.contains(&a[0], &a[1], &a[2], g.as_ref()).ok().unwrap() && d.contains(&b[0], &b[1], &b[2], g.as_ref()).ok().unwrap() };
+    // a removal of a statement that is there: strictly fewer quads (exactly one fewer when it was there once), the others untouched
+    let fewer = |before: usize, after: usize, removed: usize| if sh.copies && !set { after < before && after >= 2 } else { after + removed == before };
+    let mut ok = true;
+    let c0 = d.quads().count();
+    let a = sh.absent();
+    let _ = d.remove(&a[0], &a[1], &a[2], g.as_ref()).ok().unwrap();
+    ok &= ck(d.quads().count() == c0, "remove of an absent statement");
+    let t = sh.tgt(0);
+    let _ = d.remove(&t[0], &t[1], &t[2], g.as_ref()).ok().unwrap();
+    let c1 = d.quads().count(); ok &= ck(fewer(c0, c1, 1) && intact(&*d), &format!("remove: {c0} quads before, {c1} after"));
+    ds_refill(d, sh); let c1 = d.quads().count();
+    let _ = d.remove_quad(sh.quad(sh.tgt(1))).ok().unwrap();
+    let c2 = d.quads().count(); ok &= ck(fewer(c1, c2, 1) && intact(&*d), &format!("remove_quad: {c1} quads before, {c2} after"));
+    ds_refill(d, sh); let c2 = d.quads().count();
+    let _ = d.remove_all([sh.quad(sh.absent()), sh.quad(sh.tgt(2)), sh.quad(sh.tgt(2)), sh.quad(sh.tgt(3))].into_iter().into_source()).ok().unwrap();
+    let c3 = d.quads().count(); ok &= ck(fewer(c2, c3, if sh.copies { 1 } else { 2 }) && intact(&*d), &format!("remove_all: {c2} quads before, {c3} after"));
+    ok
+}
+/// remove_matching, retain_matching (after ds_history_a)
+fn ds_history_b<D: MutableDataset + Dataset>(d: &mut D, sh: Shape, _set: bool) -> bool where D::MutationError: From<D::Error> {
+    let g = sh.g();
+    let intact = |d: &D| { let (a, b) = (sh.other_a(), sh.other_b()); d.contains(&a[0], &a[1], &a[2], g.as_ref()).ok().unwrap() && d.contains(&b[0], &b[1], &b[2], g.as_ref()).ok().unwrap() };
+    let mut ok = true;
+    ds_refill(d, sh); let c3 = d.quads().count();
+    // remove_matching: every copy / the rare statements
+    let removed = if sh.copies { d.remove_matching([iri("x:s")], Any, Any, Any) } else { d.remove_matching(Any, iri_in(&["x:rare"]), Any, Any) }.ok().unwrap();
+    let c4 = d.quads().count();
+    ok &= ck(if sh.copies { c4 == 2 && removed >= 1 } else { c4 + sh.rares() == c3 && removed == sh.rares() } && intact(&*d), &format!("remove_matching: {c3} quads before, {c4} after, {removed} reported"));
+    ds_refill(d, sh); let c4 = d.quads().count();
+    // retain_matching that removes one statement among n, then one that removes the copies / 5 statements
+    d.retain_matching(Any, iri_not_in(&["x:q"]), Any, Any).ok().unwrap();
+    let c5 = d.quads().count(); ok &= ck(c5 + 1 == c4, &format!("retain_matching removing one statement: {c4} quads before, {c5} after"));
+    if sh.copies { d.retain_matching(iri_in(&["x:other"]), Any, Any, Any).ok().unwrap(); ok &= ck(d.quads().count() == 1, "retain_matching removing every copy"); }
+    else { let keep: Vec<[ST; 3]> = (4..9).map(|k| sh.tgt(k)).collect(); let last5: Vec<ST> = keep.iter().map(|t| t[0].clone()).collect();
+        d.retain_matching(|t: SimpleTerm| { probe(); !last5.iter().any(|x| Term::eq(x, &t)) }, Any, Any, Any).ok().unwrap(); let c6 = d.quads().count(); ok &= ck(c6 + 5 == c5, &format!("retain_matching removing 5 statements: {c5} quads before, {c6} after")); }
+    let a = sh.other_a(); ok &= ck(d.contains(&a[0], &a[1], &a[2], g.as_ref()).ok().unwrap(), "the first statement is still there");
+    ok
+}
+fn g_reads<G: Graph + ?Sized>(d: &G, sh: Shape, set: bool) -> bool {
+    let n = sh.n;
+    let total = if set && sh.copies { 3 } else { n + 2 };
+    let t = sh.tgt(0); let a = sh.absent();
+    let count = d.triples().count();
+    let has = d.contains(&t[0], &t[1], &t[2]).ok().unwrap();
+    let has_not = d.contains(&a[0], &a[1], &a[2]).ok().unwrap();
+    let by_s = d.triples_matching(iri_in(&["x:other"]), Any, Any).count();
+    let by_p = d.triples_matching(Any, iri_in(&["x:q"]), Any).count();
+    let by_o = d.triples_matching(Any, Any, iri_in(&["x:other"])).count();
+    let exact = d.triples_matching([&t[0]], [&t[1]], [&t[2]]).count();
+    let objects = d.objects().count();
+    let iris = d.iris().filter(|t| t.as_ref().ok().and_then(|t| t.iri()).map_or(false, |i| i.as_str() == "x:q")).count();
+    ck(count == total, &format!("{count} triples, expected {total}")) && ck(has && !has_not, "contains") && ck(by_s == 1 && by_p == 1 && by_o == 1, &format!("triples_matching with closures: {by_s} {by_p} {by_o}"))
+        && ck(exact == if sh.copies && !set { n } else { 1 }, &format!("{exact} triples equal to the target")) && ck((objects == total || objects == if sh.copies { 2 } else { total }) && iris >= 1, &format!("enumerations: {objects} objects"))
+}
+fn g_fill<G: MutableGraph>(d: &mut G, sh: Shape) {
+    let t = sh.other_a(); d.insert(&t[0], &t[1], &t[2]).ok().unwrap();
+    for i in 0..sh.n / 2 { d.insert_triple(sh.stmt(i)).ok().unwrap(); }
+    d.insert_all((sh.n / 2..sh.n).map(|i| sh.stmt(i)).into_source()).ok().unwrap();
+    let t = sh.other_b(); d.insert(&t[0], &t[1], &t[2]).ok().unwrap();
+}
+fn g_refill<G: MutableGraph + Graph>(d: &mut G, sh: Shape) { if sh.copies { let t = sh.stmt(0); let have = d.triples_matching([&t[0]], [&t[1]], [&t[2]]).count(); d.insert_all((have..sh.n).map(|i| sh.stmt(i)).into_source()).ok().unwrap(); } }
+fn g_history<G: MutableGraph + Graph>(mut d: G, sh: Shape, set: bool) -> bool where G::MutationError: From<G::Error> {
+    g_fill(&mut d, sh);
+    if !g_reads(&d, sh, set) { return false; }
+    let intact = |d: &G| { let (a, b) = (sh.other_a(), sh.other_b()); d.contains(&a[0], &a[1], &a[2]).ok().unwrap() && d.contains(&b[0], &b[1], &b[2]).ok().unwrap() };
+    let fewer = |before: usize, after: usize, removed: usize| if sh.copies && !set { after < before && after >= 2 } else { after + removed == before };
+    let mut ok = true;
+    let c0 = d.triples().count();
+    let a = sh.absent();
+    let _ = d.remove(&a[0], &a[1], &a[2]).ok().unwrap();
+    ok &= ck(d.triples().count() == c0, "remove of an absent statement");
+    let t = sh.tgt(0);
+    let _ = d.remove(&t[0], &t[1], &t[2]).ok().unwrap();
+    let c1 = d.triples().count(); ok &= ck(fewer(c0, c1, 1) && intact(&d), &format!("remove: {c0} triples before, {c1} after"));
+    g_refill(&mut d, sh); let c1 = d.triples().count();
+    let _ = d.remove_triple(sh.tgt(1)).ok().unwrap();
+    let c2 = d.triples().count(); ok &= ck(fewer(c1, c2, 1) && intact(&d), &format!("remove_triple: {c1} triples before, {c2} after"));
+    g_refill(&mut d, sh); let c2 = d.triples().count();
+    let _ = d.remove_all([sh.absent(), sh.tgt(2), sh.tgt(2), sh.tgt(3)].into_iter().into_source()).ok().unwrap();
+    let c3 = d.triples().count(); ok &= ck(fewer(c2, c3, if sh.copies { 1 } else { 2 }) && intact(&d), &format!("remove_all: {c2} triples before, {c3} after"));
+    g_refill(&mut d, sh); let c3 = d.triples().count();
+    let removed = if sh.copies { d.remove_matching([iri("x:s")], Any, Any) } else { d.remove_matching(Any, iri_in(&["x:rare"]), Any) }.ok().unwrap();
+    let c4 = d.triples().count();
+    ok &= ck(if sh.copies { c4 == 2 && removed >= 1 } else { c4 + sh.rares() == c3 && removed == sh.rares() } && intact(&d), &format!("remove_matching: {c3} triples before, {c4} after, {removed} reported"));
+    g_refill(&mut d, sh); let c4 = d.triples().count();
+    d.retain_matching(Any, iri_not_in(&["x:q"]), Any).ok().unwrap();
+    let c5 = d.triples().count(); ok &= ck(c5 + 1 == c4, &format!("retain_matching removing one statement: {c4} triples before, {c5} after"));
+    if sh.copies { d.retain_matching(iri_in(&["x:other"]), Any, Any).ok().unwrap(); ok &= ck(d.triples().count() == 1, "retain_matching removing every copy"); }
+    else { let last5: Vec<ST> = (4..9).map(|k| sh.tgt(k)[0].clone()).collect();
+        d.retain_matching(|t: SimpleTerm| { probe(); !last5.iter().any(|x| Term::eq(x, &t)) }, Any, Any).ok().unwrap(); let c6 = d.triples().count(); ok &= ck(c6 + 5 == c5, &format!("retain_matching removing 5 statements: {c5} triples before, {c6} after")); }
+    let a = sh.other_a(); ok &= ck(d.contains(&a[0], &a[1], &a[2]).ok().unwrap(), "the first statement is still there");
+    ok
+}
+fn run_store(op: &str, n: usize) -> u64 {
+    use sophia_api::quad::Gspo;
+    use std::collections::{BTreeSet, HashSet};
+    let parts: Vec<&str> = op.split('-').collect();
+    let (kind, copies) = (parts[1], parts[2] == "copies");
+    let sh = Shape { n, copies, named: true };
+    let plain = Shape { n, copies, named: false };
+    let ok = match kind {
+        "vgspo" => ds_history(Vec::<Gspo<ST>>::new(), sh, false),
+        "vspog" => ds_history(Vec::<Q>::new(), sh, false),
+        "hgspo" => ds_history(HashSet::<Gspo<ST>>::new(), sh, true),
+        "hspog" => ds_history(HashSet::<Q>::new(), sh, true),
+        "bgspo" => ds_history(BTreeSet::<Gspo<ST>>::new(), sh, true),
+        "bspog" => ds_history(BTreeSet::<Q>::new(), sh, true),
+        "mutref" => { let mut v = Vec::<Gspo<ST>>::new(); ds_history(&mut v, sh, false) }
+        "gasd" => { let mut d = Vec::<[ST; 3]>::new().into_dataset(); ds_history_a(&mut d, plain, false) }
+        "fastd" => ds_history(FastDataset::new(), sh, true),
+        "lightd" => ds_history(LightDataset::new(), sh, true),
+        "vtri" => g_history(Vec::<[ST; 3]>::new(), plain, false),
+        "htri" => g_history(HashSet::<[ST; 3]>::new(), plain, true),
+        "btri" => g_history(BTreeSet::<[ST; 3]>::new(), plain, true),
+        "gmutref" => { let mut v = Vec::<[ST; 3]>::new(); g_history(&mut v, plain, false) }
+        "dsgv" => { let mut v = Vec::<Gspo<ST>>::new(); MutableDataset::insert(&mut v, iri("x:elsewhere"), iri("x:p"), iri("x:o"), Some(iri("x:g2"))).unwrap(); let r = g_history(v.graph_mut(Some(iri("x:g"))), plain, false); r && ck(Dataset::contains(&v, iri("x:elsewhere"), iri("x:p"), iri("x:o"), Some(iri("x:g2"))).unwrap() && (!copies || v.len() == 2), "the other graph is untouched") }
+        "dsgs" => { let mut v = Vec::<Q>::new(); MutableDataset::insert(&mut v, iri("x:elsewhere"), iri("x:p"), iri("x:o"), None::<ST>).unwrap(); let r = g_history(v.graph_mut(Some(iri("x:g"))), plain, false); r && ck(Dataset::contains(&v, iri("x:elsewhere"), iri("x:p"), iri("x:o"), None::<ST>).unwrap() && (!copies || v.len() == 2), "the default graph is untouched") }
+        "fastg" => g_history(FastGraph::new(), plain, true),
+        "lightg" => g_history(LightGraph::new(), plain, true),
+        "views" => {
+            let (mut a, mut b, mut c) = (Vec::<Gspo<ST>>::new(), Vec::<Q>::new(), Vec::<[ST; 3]>::new());
+            ds_fill(&mut a, sh); ds_fill(&mut b, sh); g_fill(&mut c, plain);
+            let mut ok = ck(ds_reads(&a[..], sh, false), "slice of Gspo") && ck(ds_reads(&b[..], sh, false), "slice of Spog") && ck(g_reads(&c[..], plain, false), "slice of triples");
+            ok &= ck(ds_reads(&&a, sh, false), "&Vec<Gspo>") && ck(g_reads(&&c, plain, false), "&Vec<[T; 3]>");
+            ok &= ck(g_reads(&a.graph(Some(iri("x:g"))), plain, false), "graph(name) of Vec<Gspo>") && ck(g_reads(&b.union_graph(), plain, false), "union_graph of Vec<Spog>");
+            let (g1, g2) = (iri("x:g"), iri("x:g2")); ok &= ck(g_reads(&a.partial_union_graph([Some(&g1), Some(&g2)]), plain, false), "partial_union_graph of Vec<Gspo>");
+            ok &= ck(ds_reads(&c.as_dataset(), plain, false), "as_dataset of Vec<[T; 3]>");
+            ok
+        }
+        _ => panic!("unknown store kind {kind}"),
+    };
+    if ok { n as u64 } else { 0 }
 }
 
 // ---------------------------------------------------------------------------------------------
@@ -1661,6 +1980,153 @@ fn gen_rich_term(r: &mut Rng, depth: usize) -> ST {
 }
 
 // ---------------------------------------------------------------------------------------------
+// directed correspondence streams (case ids from EXTRA_CASE_BASE), next to the random one:
+//  - a history of mutations on a Vec-backed store holding MANY COPIES of few statements, compared
+//    operation by operation (value returned, content of the Vec in index order) with C16/VecStore.v;
+//  - a chain of blank nodes through the pretty Turtle / TriG writer under a configuration
+//    (indentation "", " ", tab, two spaces, nine characters; three prefix maps), the brackets,
+//    labels and indentation widths of the document compared with C16/PrettyChain.v.
+// ---------------------------------------------------------------------------------------------
+const EXTRA_CASE_BASE: usize = 500_000;
+/// caller-supplied matcher accepting the IRIs listed
+struct SubjIn(Vec<String>);
+impl TermMatcher for SubjIn {
+    type Term = ST;
+    fn matches<T2: Term + ?Sized>(&self, t: &T2) -> bool { t.iri().map_or(false, |i| self.0.iter().any(|n| n == i.as_str())) }
+}
+#[derive(Clone, Debug)]
+enum VOp { Insert(u64), Remove(u64), RemoveQuad(u64), RemoveAll(Vec<u64>), RemoveMatching(Vec<u64>), RetainMatching(Vec<u64>), Contains(u64) }
+fn v_stmt(id: u64, named: bool) -> Q { ([iri(&format!("x:s{id}")), iri(&format!("x:p{}", id % 2)), lit((id % 3) as usize)], if named && id % 2 == 0 { Some(iri("x:g")) } else { None }) }
+fn v_id<T: Term>(s: T) -> u64 { s.iri().and_then(|i| i.as_str().strip_prefix("x:s").and_then(|x| x.parse().ok())).unwrap_or(999) }
+/// (value returned, content) after each operation
+fn v_run_ds<D: MutableDataset + Dataset>(mut d: D, ops: &[VOp], content: impl Fn(&D) -> Vec<u64>) -> Vec<(u64, Vec<u64>)> where D::MutationError: From<D::Error> {
+    let subj = |ids: &[u64]| SubjIn(ids.iter().map(|i| format!("x:s{i}")).collect());
+    ops.iter().map(|o| {
+        let ret = match o {
+            VOp::Insert(q) => { let q = v_stmt(*q, true); d.insert(&q.0[0], &q.0[1], &q.0[2], q.1.as_ref()).ok().unwrap() as u64 }
+            VOp::Remove(q) => { let q = v_stmt(*q, true); d.remove(&q.0[0], &q.0[1], &q.0[2], q.1.as_ref()).ok().unwrap() as u64 }
+            VOp::RemoveQuad(q) => d.remove_quad(v_stmt(*q, true)).ok().unwrap() as u64,
+            VOp::RemoveAll(src) => d.remove_all(src.iter().map(|q| v_stmt(*q, true)).collect::<Vec<_>>().into_iter().into_source()).ok().unwrap() as u64,
+            VOp::RemoveMatching(acc) => d.remove_matching(subj(acc), Any, Any, Any).ok().unwrap() as u64,
+            VOp::RetainMatching(acc) => { d.retain_matching(subj(acc), Any, Any, Any).ok().unwrap(); 0 }
+            VOp::Contains(q) => { let q = v_stmt(*q, true); d.contains(&q.0[0], &q.0[1], &q.0[2], q.1.as_ref()).ok().unwrap() as u64 }
+        };
+        (ret, content(&d))
+    }).collect()
+}
+fn v_run_g<G: MutableGraph + Graph>(mut d: G, ops: &[VOp], content: impl Fn(&G) -> Vec<u64>) -> Vec<(u64, Vec<u64>)> where G::MutationError: From<G::Error> {
+    let subj = |ids: &[u64]| SubjIn(ids.iter().map(|i| format!("x:s{i}")).collect());
+    ops.iter().map(|o| {
+        let ret = match o {
+            VOp::Insert(q) => { let q = v_stmt(*q, false).0; d.insert(&q[0], &q[1], &q[2]).ok().unwrap() as u64 }
+            VOp::Remove(q) => { let q = v_stmt(*q, false).0; d.remove(&q[0], &q[1], &q[2]).ok().unwrap() as u64 }
+            VOp::RemoveQuad(q) => d.remove_triple(v_stmt(*q, false).0).ok().unwrap() as u64,
+            VOp::RemoveAll(src) => d.remove_all(src.iter().map(|q| v_stmt(*q, false).0).collect::<Vec<_>>().into_iter().into_source()).ok().unwrap() as u64,
+            VOp::RemoveMatching(acc) => d.remove_matching(subj(acc), Any, Any).ok().unwrap() as u64,
+            VOp::RetainMatching(acc) => { d.retain_matching(subj(acc), Any, Any).ok().unwrap(); 0 }
+            VOp::Contains(q) => { let q = v_stmt(*q, false).0; d.contains(&q[0], &q[1], &q[2]).ok().unwrap() as u64 }
+        };
+        (ret, content(&d))
+    }).collect()
+}
+fn coq_vop(o: &VOp) -> String {
+    match o { VOp::Insert(q) => format!("VInsert {q}"), VOp::Remove(q) => format!("VRemove {q}"), VOp::RemoveQuad(q) => format!("VRemoveQuad {q}"), VOp::RemoveAll(s) => format!("VRemoveAll {}", c_nlist(s)),
+        VOp::RemoveMatching(a) => format!("VRemoveMatching {}", c_nlist(a)), VOp::RetainMatching(a) => format!("VRetainMatching {}", c_nlist(a)), VOp::Contains(q) => format!("VContains {q}") }
+}
+/// tokens of a chain document (see C16/PrettyChain.v): 0 "[", 1 "]", 2 "[]", 3 end of statement,
+/// 4 + 2j label of bj, 5 + 2k line feed followed by k bytes of indentation
+fn chain_tokens(doc: &str) -> Vec<u64> {
+    let body: String = doc.split_inclusive('\n').filter(|l| !l.starts_with("PREFIX") && !l.starts_with("@prefix")).collect();
+    let b = body.as_bytes(); let mut i = 0; let mut out = vec![];
+    while i < b.len() {
+        match b[i] {
+            b'<' => { while i < b.len() && b[i] != b'>' { i += 1; } i += 1; }
+            b'[' => { if b.get(i + 1) == Some(&b']') { out.push(2); i += 2; } else { out.push(0); i += 1; } }
+            b']' => { out.push(1); i += 1; }
+            b'_' if b.get(i + 1) == Some(&b':') => { let st = i + 3; let mut e = st; while e < b.len() && b[e].is_ascii_digit() { e += 1; } out.push(4 + 2 * std::str::from_utf8(&b[st..e]).ok().and_then(|x| x.parse::<u64>().ok()).unwrap_or(499_999)); i = e; }
+            b'.' if b.get(i + 1) == Some(&b'\n') => { out.push(3); i += 2; }
+            b'\n' => { let mut e = i + 1; while e < b.len() && (b[e] == b' ' || b[e] == b'\t') { e += 1; } out.push(5 + 2 * (e - i - 1) as u64); i = e; }
+            _ => i += 1,
+        }
+    }
+    out
+}
+fn gen_extra_case(k: usize, base: &Rng, sum: &mut Summary) -> Option<Case> {
+    let idx = EXTRA_CASE_BASE + k;
+    let mut r = base.fork(idx as u64);
+    if k % 2 == 0 {
+        use sophia_api::quad::Gspo;
+        let flavour = r.below(3) as u64;
+        // few statements, many copies: the pool is small and the first insertions are repeated
+        let pool = 2 + r.below(3) as u64;
+        let pick = |r: &mut Rng| 1 + r.below(pool as usize) as u64;
+        let subset = |r: &mut Rng| -> Vec<u64> { (1..=pool + 1).filter(|_| r.chance(1, 2)).collect() };
+        let mut ops: Vec<VOp> = vec![];
+        let fav = pick(&mut r);
+        for _ in 0..r.range(2, 9) { ops.push(VOp::Insert(if r.chance(2, 3) { fav } else { pick(&mut r) })); }
+        for _ in 0..r.range(1, 6) {
+            let q = if r.chance(1, 2) { fav } else { pick(&mut r) };
+            ops.push(match r.below(9) { 0 => VOp::Insert(q), 1 | 2 => VOp::Remove(q), 3 => VOp::RemoveQuad(q), 4 => VOp::RemoveAll((0..r.below(4)).map(|_| if r.chance(1, 2) { fav } else { 1 + r.below(pool as usize + 1) as u64 }).collect()),
+                5 | 6 => VOp::RemoveMatching(subset(&mut r)), 7 => VOp::RetainMatching(subset(&mut r)), _ => VOp::Contains(q) });
+            if r.chance(1, 3) { for _ in 0..r.range(1, 4) { ops.push(VOp::Insert(fav)); } }
+        }
+        let obs = match flavour {
+            0 => v_run_ds(Vec::<Gspo<ST>>::new(), &ops, |v| v.iter().map(|q| v_id(&q.1[0])).collect()),
+            1 => v_run_ds(Vec::<Q>::new(), &ops, |v| v.iter().map(|q| v_id(&q.0[0])).collect()),
+            _ => v_run_g(Vec::<[ST; 3]>::new(), &ops, |v| v.iter().map(|t| v_id(&t[0])).collect()),
+        };
+        let name = ["Vec<Gspo<SimpleTerm>>", "Vec<Spog<SimpleTerm>>", "Vec<[SimpleTerm; 3]>"][flavour as usize];
+        // oracle (the contract of the operations, on the numbers of copies)
+        let count = |v: &Vec<u64>, q: u64| v.iter().filter(|x| **x == q).count();
+        let mut prev: Vec<u64> = vec![];
+        for (o, (ret, now)) in ops.iter().zip(obs.iter()) {
+            let others_same = |q: u64| (1..=pool + 1).filter(|x| *x != q).all(|x| count(&prev, x) == count(now, x));
+            let bad = match o {
+                VOp::Insert(q) => count(now, *q) != count(&prev, *q) + 1 || !others_same(*q) || *ret != 1,
+                VOp::Remove(q) | VOp::RemoveQuad(q) => !others_same(*q) || (count(&prev, *q) > 0 && (count(now, *q) >= count(&prev, *q) || *ret != 1)) || (count(&prev, *q) == 0 && now != &prev),
+                VOp::RemoveAll(src) => (1..=pool + 1).any(|x| if src.contains(&x) { count(&prev, x) > 0 && count(now, x) >= count(&prev, x) } else { count(now, x) != count(&prev, x) }),
+                VOp::RemoveMatching(acc) => (1..=pool + 1).any(|x| if acc.contains(&x) { count(now, x) != 0 } else { count(now, x) != count(&prev, x) }),
+                VOp::RetainMatching(acc) => (1..=pool + 1).any(|x| if acc.contains(&x) { count(now, x) != count(&prev, x) } else { count(now, x) != 0 }),
+                VOp::Contains(q) => now != &prev || (*ret == 1) != (count(&prev, *q) > 0),
+            };
+            if bad { sum.oracle_failures.push((idx.to_string(), format!("{name}: after the operations {:?} the store held the statements {prev:?} (by number); the operation {o:?} returned {ret} and left {now:?}", &ops[..ops.len().min(20)]))); return None; }
+            prev = now.clone();
+        }
+        let most = obs.iter().map(|(_, v)| (1..=pool).map(|q| count(v, q)).max().unwrap_or(0)).max().unwrap_or(0);
+        sum.bump(&format!("vec-history:{name}"));
+        let c_obs = coq_list(obs.iter().map(|(r, v)| format!("({r}, {})", c_nlist(v))));
+        Some(Case { idx, body: format!("vec_ok {flavour} {} {c_obs}", coq_list(ops.iter().map(|o| format!("({})", coq_vop(o))))), text: format!("{name} operations {ops:?} => {obs:?}"), nontrivial: most >= 3 && ops.iter().any(|o| !matches!(o, VOp::Insert(_) | VOp::Contains(_))), kind: "vec-history" })
+    } else {
+        let units = ["", " ", "\t", "  ", "  \t   \t  "];
+        let unit = units[r.below(units.len())];
+        let typed = r.chance(1, 3);
+        let n = match r.below(6) { 0 | 1 => r.range(1, 13), 2 | 3 => r.range(60, 71), 4 => r.range(120, 135), _ => r.range(136, 260) };
+        let pm = r.below(3); let trig = r.chance(1, 3);
+        let p = if typed { iri(RDF_TYPE) } else { iri("x:p") };
+        let node = |i: usize| if i == 0 { iri("x:s") } else { bnode(&format!("b{i}")) };
+        let mut ts: Vec<[ST; 3]> = (0..n).map(|i| [node(i), p.clone(), node(i + 1)]).collect();
+        for i in (1..ts.len()).rev() { ts.swap(i, r.below(i + 1)); }
+        let cfg = sophia_turtle::serializer::turtle::TurtleConfig::new().with_pretty(true).with_indentation(unit);
+        let cfg = match pm { 0 => cfg, 1 => cfg.with_own_prefix_map(vec![]), _ => cfg.with_own_prefix_map(rich_prefix_map()) };
+        let doc = if trig { let mut ser = sophia_turtle::serializer::trig::TrigSerializer::new_stringifier_with_config(cfg); ser.serialize_quads(ts.iter().cloned().map(|t| (t, None::<ST>)).into_source()).unwrap(); ser.as_str().to_string() }
+            else { let mut ser = sophia_turtle::serializer::turtle::TurtleSerializer::new_stringifier_with_config(cfg); ser.serialize_triples(ts.iter().cloned().into_source()).unwrap(); ser.as_str().to_string() };
+        let toks = chain_tokens(&doc);
+        let what = format!("pretty {} serializer, indentation {unit:?}, prefix map #{pm}, chain x:s -> _:b1 -> ... -> _:b{n} linked by {}", if trig { "TriG" } else { "Turtle" }, if typed { "rdf:type" } else { "<x:p>" });
+        // oracle: the document nests square brackets no deeper than the writer's constant, whatever n and the
+        // configuration (one level of brackets = one turn of the writer's recursion), and reads back as the graph written
+        let (mut cur, mut deepest) = (0usize, 0usize);
+        for t in &toks { if *t == 0 { cur += 1; deepest = deepest.max(cur); } else if *t == 1 { cur = cur.saturating_sub(1); } }
+        if deepest > 64 { sum.oracle_failures.push((idx.to_string(), format!("{what}: the document nests square brackets {deepest} deep (the depth of the writer's recursion follows the NUMBER of statements; bound 64)"))); return None; }
+        match sophia_turtle::parser::turtle::parse_str(&doc).collect_triples::<Vec<[ST; 3]>>() {
+            Ok(back) if sophia_isomorphism::isomorphic_graphs(&ts, &back).unwrap_or(false) => {}
+            other => { sum.oracle_failures.push((idx.to_string(), format!("{what}: the document does not read back as the graph written ({}): {}", match &other { Ok(b) => format!("{} triples", b.len()), Err(e) => format!("{e:?}") }, doc.chars().take(600).collect::<String>()))); return None; }
+        }
+        sum.bump(&format!("pretty-chain:unit{}:{}", unit.len(), if n > 64 { "cut" } else { "whole" }));
+        Some(Case { idx, body: format!("chain_ok {} {} {n} {}", unit.len(), coq_bool(typed), c_nlist(&toks)), text: format!("{what} => {} tokens, brackets {deepest} deep", toks.len()), nontrivial: n >= 2, kind: "pretty-chain" })
+    }
+}
+
+// ---------------------------------------------------------------------------------------------
 // the stack oracle
 // ---------------------------------------------------------------------------------------------
 const STACK: usize = 2 << 20;
@@ -1669,11 +2135,24 @@ const STACK_CASE_BASE: usize = 1_000_000;
 /// the pretty serializer nests blank nodes in [ ] up to its constant MAX_DEPTH = 64 levels, whatever the length of the
 /// chain: for the operations that make it do so through a probing writer, the absolute bound on the spread of
 /// the callback addresses is 64 levels' worth, and the spread must not grow between the two sizes
-fn spread_bound(op: &str) -> usize { if matches!(op, "ttl-cycle" | "ttl-lists-bad") { 512 << 10 } else { SPREAD_BOUND } }
-fn is_pretty(op: &str) -> bool { matches!(op, "ttl-list" | "ttl-pretty-stmts" | "ttl-chain" | "ttl-type-chain" | "trig-graphs" | "ttl-wide" | "ttl-annot" | "ttl-kinds" | "ttl-cycle" | "ttl-lists-bad" | "trig-pretty-big") }
+fn spread_bound(op: &str) -> usize { if matches!(split_op(op).0, "ttl-cycle" | "ttl-lists-bad") { 512 << 10 } else { SPREAD_BOUND } }
+fn is_pretty(op: &str) -> bool { matches!(split_op(op).0, "ttl-list" | "ttl-pretty-stmts" | "ttl-chain" | "ttl-type-chain" | "trig-graphs" | "ttl-wide" | "ttl-annot" | "ttl-kinds" | "ttl-cycle" | "ttl-lists-bad" | "trig-pretty-big") }
 /// sizes for one operation: powers of ten from 10^4 to `big`; the pretty Turtle serializer takes
 /// quadratic time, so it gets what can be run at all
 fn sizes_for(op: &str, big: usize) -> Vec<usize> {
+    // an operation under a non-default configuration: the smallest size of the operation and a multiple of it (the
+    // growth of the stack between the two is what is judged); the first two sizes of the operation for the
+    // configuration of the legal extremes in the thorough tier
+    if let (base, packed @ 1..) = split_op(op) {
+        let s = sizes_for(base, big);
+        if big >= 1_000_000 && DIMS.iter().enumerate().all(|(d, dim)| cfg_value(packed, d) == 0 || cfg_value(packed, d) == dim.extreme) { return s.into_iter().take(2).collect(); }
+        // (the quadratic pretty writer: 200 and 400 elements, both past the 64 levels at which it stops nesting)
+        let lo = if is_pretty(base) && s[0] > 200 { 200 } else { s[0] };
+        let hi = (2 * lo).min(s[s.len() - 1]);
+        return if hi > lo { vec![lo, hi] } else { vec![lo] };
+    }
+    // (quick tier: the histories scan a Vec store about a hundred times)
+    if op.starts_with("store-") { return if big >= 1_000_000 { vec![10_000, 100_000, 1_000_000] } else { vec![5_000, 20_000] }; }
     if let Some(v) = loop_sizes(op, big) { return v; }
     // quadratic and slow: build_subject_types scans the whole dataset once per blank node subject
     // (both sizes past the point where the chains reach the serializer's 64 levels of [ ])
@@ -1693,6 +2172,49 @@ fn slope_of(op: &str) -> (f64, f64) {
     ((s2 as f64 - s1 as f64) / (n2 - n1) as f64, (u2 as f64 - u1 as f64) / (n2 - n1) as f64)
 }
 
+const VARIANT_CASE_BASE: usize = 10_000_000;
+/// the configuration dimensions that `op` consults (measured: the operation is run once, small, in this process)
+fn op_dims(op: &str) -> u64 {
+    if op.starts_with("it-") || op.starts_with("store-") { return 0; } // (stores and their iterators: nothing to configure)
+    CFG_USED.store(0, SeqCst); QUIET.store(true, SeqCst);
+    let o = op.to_string();
+    let _ = on_big_thread(move || run_op(&o, 12));
+    QUIET.store(false, SeqCst);
+    CFG_USED.load(SeqCst)
+}
+/// one operation under one configuration
+#[derive(Clone)]
+struct Inst { oi: usize, name: String, desc: String, id_base: usize }
+/// the default configuration of every operation, then the configured variants: the configuration of the legal extremes
+/// and one configuration drawn from the seed (quick tier) / every configuration (thorough tier)
+fn instances(seed: u64, big: usize, sum: &mut Summary) -> Vec<Inst> {
+    let mut v: Vec<Inst> = ops().iter().enumerate().map(|(oi, (op, desc))| Inst { oi, name: op.to_string(), desc: desc.to_string(), id_base: STACK_CASE_BASE + oi * 10 }).collect();
+    let rng = Rng::new(seed ^ 0xc0f1_6000);
+    let mut by_dims: std::collections::BTreeMap<String, usize> = Default::default();
+    for (oi, (op, desc)) in ops().iter().enumerate() {
+        let dims = op_dims(op);
+        if dims == 0 { continue; }
+        *by_dims.entry(DIMS.iter().enumerate().filter(|(d, _)| dims & (1 << d) != 0).map(|(_, dim)| dim.letter).collect()).or_default() += 1;
+        let all = all_configs(dims);
+        let chosen: Vec<usize> = if big >= 1_000_000 { (0..all.len()).collect() } else {
+            let ext = all.iter().position(|c| *c == extreme_config(dims));
+            let mut c: Vec<usize> = ext.into_iter().collect();
+            let rest: Vec<usize> = (0..all.len()).filter(|k| Some(*k) != ext).collect();
+            if !rest.is_empty() { let mut r = rng.fork(oi as u64); c.push(rest[r.below(rest.len())]); }
+            c
+        };
+        for vi in chosen { v.push(Inst { oi, name: format!("{op}@{}", cfg_suffix(all[vi])), desc: format!("{desc}; CONFIGURATION: {}", cfg_describe(all[vi])), id_base: VARIANT_CASE_BASE + (oi * 256 + vi) * 10 }); }
+    }
+    CFG.store(0, SeqCst);
+    for (k, n) in by_dims { sum.bump_by(&format!("configurable:{k}"), n as u64); }
+    // the helpers must have seen the configurable components of these families
+    for (op, letter) in [("ttl-chain", 'i'), ("ttl-kinds", 'p'), ("jsonld-list", 's'), ("jsonld-list", 'm'), ("xml-ser", 'x'), ("nt-escape", 'a'), ("sparql-graph", 'q')] {
+        assert!(op_dims(op) & (1 << DIMS.iter().position(|d| d.letter == letter).unwrap()) != 0, "operation {op} does not consult dimension {letter}");
+    }
+    CFG.store(0, SeqCst);
+    v
+}
+
 fn main() {
     let a = parse_args();
     let flag = |name: &str| a.rest.iter().position(|s| s == name);
@@ -1705,6 +2227,11 @@ fn main() {
             let Some((v, spread, calls, used)) = on_big_thread(move || run_op(&op2, n)) else { println!("{op} n={n}: panicked"); continue };
             println!("{op} n={n} [{PROFILE}] result={v} callback-spread={spread}B over {calls} calls, stack high-water={used}B");
         }
+        return;
+    }
+    if flag("--list-variants").is_some() {
+        // exploration: every operation under every configuration of the dimensions it consults
+        for (op, _) in ops() { for c in all_configs(op_dims(op)) { println!("{op}@{}", cfg_suffix(c)); } }
         return;
     }
     if let Some(i) = flag("--crash-table") {
@@ -1724,12 +2251,19 @@ fn main() {
 a pattern query (0-13 quads over a 12-term pool, light/fast graph/dataset, every arm of graph.rs/dataset.rs that uses one of the five matching iterators, caller-supplied matchers that log their calls), \
 a literal through nt::write_term (escapable bytes over-represented), GRAPH ?g over 0-4 named graphs, a nested RDF list or a list with a damaged cell through the JSON-LD serializer, constituents/atoms (borrowed, consuming, through &T) of a nested term, nt::write_term on a term of any kind, NtSerializer on 0-5 statements; \
 non-trivial = at least two rows of which one is skipped / two escaped bytes / two graph names / two cells / a quoted triple / a quoted triple or an escaped byte / two statements. \
-(2) stack case (ids from 1000000) = one operation at one size on a thread with a 2 MiB stack in a subprocess of this binary (profile of the binary), with callback address spread and mincore high-water mark; all are non-trivial".into();
+directed streams (ids from 500000): a history of 3-25 insert / remove / remove_quad / remove_all / remove_matching / retain_matching / contains on a Vec<Gspo>, Vec<Spog> or Vec<[T; 3]> store over 2-4 statements held in many copies (non-trivial = some statement held at least 3 times and a mutation other than insert), compared step by step (value returned, Vec in index order) with C16/VecStore.v; a chain of 1-260 blank nodes through the pretty Turtle / TriG writer under one of 5 indentations (the empty one included) and 3 prefix maps, brackets / labels / indentation widths compared with C16/PrettyChain.v, oracle: brackets at most 64 deep and the document reads back (non-trivial = at least 2 nodes). \
+(2) stack case (ids from 1000000; from 10000000 for an operation under a non-default configuration) = one operation at one size on a thread with a 2 MiB stack in a subprocess of this binary (profile of the binary), with callback address spread and mincore high-water mark; all are non-trivial".into();
 
     // one stack case, verbosely
     if let Some(id) = a.only.filter(|i| *i >= STACK_CASE_BASE) {
-        let k = id - STACK_CASE_BASE; let (op, desc) = ops()[k / 10]; let sizes = sizes_for(op, big);
-        let n = *sizes.get(k % 10).unwrap_or(&sizes[sizes.len() - 1]);
+        let (opname, desc, si): (String, String, usize) = if id >= VARIANT_CASE_BASE {
+            let k = id - VARIANT_CASE_BASE; let (oi, vi) = (k / 10 / 256, k / 10 % 256); let (op, desc) = ops()[oi];
+            let c = all_configs(op_dims(op))[vi]; CFG.store(0, SeqCst);
+            (format!("{op}@{}", cfg_suffix(c)), format!("{desc}; CONFIGURATION: {}", cfg_describe(c)), k % 10)
+        } else { let k = id - STACK_CASE_BASE; (ops()[k / 10].0.to_string(), ops()[k / 10].1.to_string(), k % 10) };
+        let (op, desc) = (opname.as_str(), desc.as_str());
+        let sizes = sizes_for(op, big);
+        let n = *sizes.get(si).unwrap_or(&sizes[sizes.len() - 1]);
         let (o, dt) = run_child(op, n, STACK, 3600);
         println!("STACK CASE {id}: {op} ({desc}) n={n} on a {STACK}-byte stack [{PROFILE}] => {o:?} in {dt:.1}s");
         let (cs, ws) = slope_of(op);
@@ -1740,7 +2274,7 @@ non-trivial = at least two rows of which one is skipped / two escaped bytes / tw
     // ---- (1) correspondence
     let base = Rng::new(a.seed);
     let mut cases = vec![]; let mut seen = std::collections::HashSet::new();
-    let range: Vec<usize> = match a.only { Some(i) => vec![i], None => (0..a.n).collect() };
+    let range: Vec<usize> = match a.only { Some(i) if i < EXTRA_CASE_BASE => vec![i], Some(_) => vec![], None => (0..a.n).collect() };
     for idx in range {
         let Some(c) = gen_case(idx, &base, &mut sum) else { continue };
         if a.only.is_some() { println!("CASE {idx} [{}]: {}\n  Coq: {}", c.kind, c.text, c.body); }
@@ -1749,28 +2283,40 @@ non-trivial = at least two rows of which one is skipped / two escaped bytes / tw
         sum.evaluations += 1;
         cases.push((c.idx, c.body));
     }
+    // directed streams: Vec store histories, blank node chains under a configuration
+    let extra: Vec<usize> = match a.only { Some(i) if i >= EXTRA_CASE_BASE && i < STACK_CASE_BASE => vec![i - EXTRA_CASE_BASE], Some(_) => vec![], None => (0..(a.n / 6).max(8)).collect() };
+    for k in extra {
+        let Some(c) = gen_extra_case(k, &base, &mut sum) else { continue };
+        if a.only.is_some() { println!("CASE {} [{}]: {}\n  Coq: {}", c.idx, c.kind, c.text, c.body); }
+        if seen.insert(c.body.clone()) && c.nontrivial { sum.distinct_nontrivial += 1; }
+        if sum.samples.len() < 8 && c.nontrivial && sum.samples.iter().filter(|s: &&String| s.contains(&format!("[{}]", c.kind))).count() == 0 { sum.samples.push(format!("case {} [{}]: {}", c.idx, c.kind, c.text.chars().take(400).collect::<String>())); }
+        sum.evaluations += 1;
+        cases.push((c.idx, c.body));
+    }
     if a.only.is_some() { return; }
 
     // ---- (2) the stack oracle: all (operation, size) pairs, `jobs` children at a time
-    let mut work: Vec<(usize, usize, &'static str, usize)> = vec![]; // (case id, op index, op, n)
-    for (oi, (op, _)) in ops().iter().enumerate() { for (si, n) in sizes_for(op, big).into_iter().enumerate() { work.push((STACK_CASE_BASE + oi * 10 + si, oi, op, n)); } }
+    let insts = instances(a.seed, big, &mut sum);
+    let mut work: Vec<(usize, usize, String, usize)> = vec![]; // (case id, instance index, operation[@configuration], n)
+    for (ii, inst) in insts.iter().enumerate() { for (si, n) in sizes_for(&inst.name, big).into_iter().enumerate() { work.push((inst.id_base + si, ii, inst.name.clone(), n)); } }
     let queue = std::sync::Arc::new(std::sync::Mutex::new(work.clone().into_iter().rev().collect::<Vec<_>>()));
     let results = std::sync::Arc::new(std::sync::Mutex::new(Vec::<(usize, usize, usize, ChildOutcome, f64)>::new()));
     let t_stack = std::time::Instant::now();
     let handles: Vec<_> = (0..jobs).map(|_| { let (q, res) = (queue.clone(), results.clone()); std::thread::spawn(move || loop {
         let job = q.lock().unwrap().pop(); let Some((id, oi, op, n)) = job else { break };
-        let (o, dt) = run_child(op, n, STACK, 3000);
+        let (o, dt) = run_child(&op, n, STACK, 3000);
         res.lock().unwrap().push((id, oi, n, o, dt));
     }) }).collect();
     for h in handles { h.join().unwrap(); }
     let mut results = results.lock().unwrap().clone(); results.sort_by_key(|r| r.0);
     let mut table = vec![];
-    for (oi, (op, desc)) in ops().iter().enumerate() {
+    for (oi, inst) in insts.iter().enumerate() {
+        let (op, desc) = (inst.name.as_str(), inst.desc.as_str());
         let mine: Vec<_> = results.iter().filter(|r| r.1 == oi).collect();
         let mut oks: Vec<(usize, usize, u64, usize)> = vec![]; // n, spread, calls, used
         let mut crashed = false;
         for (id, _, n, o, dt) in mine.iter().map(|r| (r.0, r.1, r.2, &r.3, r.4)) {
-            sum.evaluations += 1; sum.distinct_nontrivial += 1; sum.bump(&format!("stack:{}", if in_oracle(op) { "oracle" } else { "exploration" }));
+            sum.evaluations += 1; sum.distinct_nontrivial += 1; sum.bump(&format!("stack:{}", if !in_oracle(op) { "exploration" } else if op.contains('@') { "oracle:configured" } else { "oracle" }));
             let (status, detail) = match o {
                 ChildOutcome::Ok { value, spread, calls, used } => {
                     if check_value(op, n, *value) { oks.push((n, *spread, *calls, *used)); ("ok".to_string(), String::new()) }
@@ -1791,7 +2337,7 @@ non-trivial = at least two rows of which one is skipped / two escaped bytes / tw
         // (i) spread of the callback addresses, growth of the high-water mark
         if !crashed && oks.len() >= 1 {
             let (n_hi, spread, calls, used_hi) = oks[oks.len() - 1]; let (n_lo, spread_lo, _, used_lo) = oks[0];
-            let id = STACK_CASE_BASE + oi * 10 + oks.len() - 1;
+            let id = inst.id_base + oks.len() - 1;
             let per = |hi: usize, lo: usize| if n_hi > n_lo { (hi as f64 - lo as f64) / (n_hi - n_lo) as f64 } else { 0.0 };
             table.push(format!("{{\"op\": {}, \"profile\": {}, \"slope_callback_bytes_per_element\": {:.4}, \"slope_high_water_bytes_per_element\": {:.4}, \"from_n\": {n_lo}, \"to_n\": {n_hi}}}", json_str(op), json_str(PROFILE), per(spread, spread_lo), per(used_hi, used_lo)));
             let mut bad = vec![];
@@ -1815,10 +2361,14 @@ non-trivial = at least two rows of which one is skipped / two escaped bytes / tw
             table.push(format!("{{\"exploration\": {}, \"n\": {n}, \"profile\": {}, \"outcome\": {}, \"seconds\": {dt:.1}}}", json_str(op), json_str(PROFILE), json_str(&outcome)));
         }
     }
+    { let (o, dt) = run_child("x-nt-ascii", 10, STACK, 600);
+      let outcome = match &o { ChildOutcome::Ok { .. } => "ok".to_string(), ChildOutcome::Crashed(why) if why.contains("panicked") => "panics-todo".to_string(), ChildOutcome::Crashed(_) => "crashed".to_string(), _ => "other".to_string() };
+      sum.bump(&format!("explore:{PROFILE}:x-nt-ascii:{outcome}"));
+      table.push(format!("{{\"exploration\": \"x-nt-ascii (NtConfig::set_ascii(true))\", \"n\": 10, \"profile\": {}, \"outcome\": {}, \"seconds\": {dt:.1}}}", json_str(PROFILE), json_str(&outcome))); }
     sum.extra.push(("stack_table".into(), format!("[{}]", table.join(", "))));
     sum.extra.push(("stack_seconds".into(), format!("{:.1}", t_stack.elapsed().as_secs_f64())));
     sum.extra.push(("profile".into(), json_str(PROFILE)));
-    sum.shards = write_shards(&a.out, "From Sophia.C16 Require Import Model.\n", &cases, a.shards);
+    sum.shards = write_shards(&a.out, "From Sophia.C16 Require Import Model VecStore PrettyChain.\n", &cases, a.shards);
     sum.extra.push(("coq_cases".into(), cases.len().to_string()));
     std::fs::write(format!("{}/summary.json", a.out), sum.to_json()).unwrap();
     println!("c16 [{PROFILE}]: {} evaluations ({} correspondence cases, {} stack runs in {:.0}s), {} distinct non-trivial, {} oracle failures", sum.evaluations, cases.len(), results.len(), t_stack.elapsed().as_secs_f64(), sum.distinct_nontrivial, sum.oracle_failures.len());
